@@ -2,4 +2,1795 @@ import PsaDhcp.Model.System
 import PsaDhcp.Spec.ServerSpec
 import PsaDhcp.Proofs.Ipdb
 namespace PsaDhcp.Proofs.Safety
+open PsaDhcp PsaDhcp.Spec PsaDhcp.Proofs.Ipdb
+
+/-! ## Small facts: identities, addresses, ranges -/
+
+theorem sduid_injective (a b : Bytes) (h : sduid a = sduid b) : a = b :=
+  List.append_cancel_left h
+
+theorem sduid_prefix (hw : Bytes) : internalPrefix.isPrefixOf (sduid hw) = true := by
+  rw [List.isPrefixOf_iff_prefix]; exact List.prefix_append _ _
+
+theorem holder_identity {σ : Type} (S : Store σ) (db : IPDB σ) (t : Int) (hw cid : Bytes) :
+    (getDuid S db t hw cid).2 = sduid hw ∨
+      ((getDuid S db t hw cid).2 = cid ∧ 4 ≤ cid.length ∧ internalPrefix.isPrefixOf cid = false) := by
+  unfold getDuid
+  dsimp only
+  split
+  · exact Or.inl rfl
+  · split
+    · exact Or.inl rfl
+    · rename_i hc
+      refine Or.inr ⟨rfl, by omega, ?_⟩
+      cases hp : internalPrefix.isPrefixOf cid with
+      | false => rfl
+      | true => exact absurd (Or.inr hp) hc
+
+theorem holder_distinct {σ : Type} (S : Store σ) (db₁ db₂ : IPDB σ) (t₁ t₂ : Int) (hw₁ cid₁ hw₂ cid₂ : Bytes)
+    (hhw : hw₁ ≠ hw₂) (hcid : cid₁ ≠ cid₂ ∨ cid₁ = []) :
+    (getDuid S db₁ t₁ hw₁ cid₁).2 ≠ (getDuid S db₂ t₂ hw₂ cid₂).2 := by
+  rcases holder_identity S db₁ t₁ hw₁ cid₁ with h1 | ⟨h1, l1, p1⟩ <;>
+    rcases holder_identity S db₂ t₂ hw₂ cid₂ with h2 | ⟨h2, l2, p2⟩ <;> rw [h1, h2] <;> intro he
+  · exact hhw (sduid_injective _ _ he)
+  · rw [← he, sduid_prefix] at p2; cases p2
+  · rw [he, sduid_prefix] at p1; cases p1
+  · rcases hcid with h | h
+    · exact h he
+    · rw [h] at l1; simp at l1
+
+theorem u8_lt (x : UInt8) : x.toNat < 256 := x.toNat_lt
+
+theorem Ip4.toNat_lt (x : Ip4) : x.toNat < 4294967296 := by
+  have := u8_lt x.a; have := u8_lt x.b; have := u8_lt x.c; have := u8_lt x.d
+  unfold Ip4.toNat; omega
+
+theorem u8_ofNat_toNat (x : UInt8) (n : Nat) (h : n = x.toNat) : UInt8.ofNat n = x := by
+  subst h; exact UInt8.ofNat_toNat
+
+theorem Ip4.ofNat_toNat (x : Ip4) : Ip4.ofNat x.toNat = x := by
+  have := u8_lt x.a; have := u8_lt x.b; have := u8_lt x.c; have := u8_lt x.d
+  cases x with
+  | mk a b c d =>
+    simp only [Ip4.ofNat, Ip4.toNat] at *
+    rw [u8_ofNat_toNat a _ (by omega), u8_ofNat_toNat b _ (by omega), u8_ofNat_toNat c _ (by omega),
+      u8_ofNat_toNat d _ (by omega)]
+
+theorem Ip4.toNat_ofNat {n : Nat} (h : n < 4294967296) : (Ip4.ofNat n).toNat = n := by
+  simp only [Ip4.ofNat, Ip4.toNat, UInt8.toNat_ofNat']
+  omega
+
+theorem fromTo_31_empty (base : Nat) : (fromTo base 31).2 < (fromTo base 31).1 := by
+  simp only [fromTo]
+  split <;> simp only [] <;> omega
+
+theorem fromTo_excludes (base p : Nat) (hp : p ≤ 30) :
+    let size := 2 ^ (32 - p)
+    let start := base / size * size
+    (fromTo base p).1 = start + 1 ∧ (fromTo base p).2 = start + size - 2 ∧
+    ∀ a, (fromTo base p).1 ≤ a → a ≤ (fromTo base p).2 → a ≠ start ∧ a ≠ start + size - 1 := by
+  intro size start
+  have hs : 4 ≤ size := by
+    have : 2 ^ 2 ≤ 2 ^ (32 - p) := Nat.pow_le_pow_right (by decide) (by omega)
+    simpa using this
+  have hft : fromTo base p = (start + 1, start + size - 1 - 1) := by
+    unfold fromTo
+    show (if start ≠ start + size - 1 then (start + 1, start + size - 1 - 1) else (start, start + size - 1)) = _
+    rw [if_pos (by omega)]
+  rw [hft]
+  refine ⟨rfl, by simp only []; omega, ?_⟩
+  intro a h1 h2
+  simp only [] at h1 h2
+  omega
+
+/-- The managed range ends below 2^32. -/
+theorem fromTo_lt (base p : Nat) (hb : base < 4294967296) (hp : p ≤ 32) : (fromTo base p).2 < 4294967296 := by
+  have hpow : 2 ^ p * 2 ^ (32 - p) = 4294967296 := by
+    have : p + (32 - p) = 32 := by omega
+    rw [← Nat.pow_add, this]
+  have hpos : 0 < 2 ^ (32 - p) := Nat.two_pow_pos _
+  unfold fromTo
+  generalize 2 ^ (32 - p) = size at *
+  have hdiv : base / size < 2 ^ p := by
+    apply Nat.div_lt_of_lt_mul; rw [Nat.mul_comm]; omega
+  have hle : (base / size + 1) * size ≤ 2 ^ p * size := Nat.mul_le_mul_right _ hdiv
+  rw [Nat.add_mul] at hle
+  simp only []
+  split <;> simp only [] <;> omega
+
+
+
+
+/-! ## The database calls over the reference table -/
+
+theorem lookupByDuid_table (db : IPDB Table) (t : Int) (d : Duid) :
+    db.lookupByDuid tableStore t d =
+      (db, match db.s.liveDuid t d with | some x => .ok x.ip | none => .error .notFound) := by
+  unfold IPDB.lookupByDuid
+  simp only [tableStore, Table.lookupRes]
+  cases db.s.liveDuid t d <;> rfl
+
+theorem getDuid_table_fst (db : IPDB Table) (t : Int) (hw cid : Bytes) : (getDuid tableStore db t hw cid).1 = db := by
+  unfold getDuid
+  rw [lookupByDuid_table]
+  dsimp only
+  split
+  · rfl
+  · split <;> rfl
+
+theorem getDuid_table_found (db : IPDB Table) (t : Int) (hw cid : Bytes) (x : Binding)
+    (h : db.s.liveDuid t (sduid hw) = some x) : (getDuid tableStore db t hw cid).2 = sduid hw := by
+  unfold getDuid
+  rw [lookupByDuid_table, h]
+
+theorem getDuid_table_cid (db : IPDB Table) (t : Int) (hw cid : Bytes)
+    (h : (getDuid tableStore db t hw cid).2 ≠ sduid hw) : db.s.liveDuid t (sduid hw) = none := by
+  cases hl : db.s.liveDuid t (sduid hw) with
+  | none => rfl
+  | some x => exact absurd (getDuid_table_found db t hw cid x hl) h
+
+theorem findLoop_table_fst (df : Nat) (orc : Nat → IPDB.Iter) (vs : List Nat) :
+    ∀ (i : Nat) (T : Table), (IPDB.findLoop tableStore df vs orc i T).1 = T := by
+  induction vs with
+  | nil => intro i T; rfl
+  | cons v rest ih =>
+    intro i T
+    rw [findLoop_table_cons]
+    split
+    · rfl
+    · split
+      · rfl
+      · exact ih _ _
+
+theorem findIP_table_fst (db : IPDB Table) (now : Int) (sugg : Option Ip4) (d : Duid) (perm : List Nat)
+    (orc : Nat → IPDB.Iter) : (db.findIP tableStore now sugg d perm orc).1 = db := by
+  rw [findIP_eq]
+  have : (findCore tableStore db.dynFrom db.dynTo db.s now (suggN db sugg) d perm orc).1 = db.s := by
+    unfold findCore
+    have hl : (tableStore.lookup db.s now (suggN db sugg) d).1 = db.s := rfl
+    dsimp only
+    split
+    · exact hl
+    · split
+      · exact hl
+      · rw [findLoop_table_fst, hl]
+  simp only [this]
+
+/-- `upd` with the expiry the binding already has is the identity. -/
+theorem map_upd_self (x : Binding) (l : List Binding) : l.map (upd x x.exp) = l := by
+  have : upd x x.exp = id := by
+    funext b; unfold upd; split
+    · rename_i h; subst h; rfl
+    · rfl
+  rw [this, List.map_id]
+
+/-- What `UpdateClient` does to the reference table, in every case. -/
+theorem update_cases (db : IPDB Table) (now : Int) (ip : Option Ip4) (d : Duid) (ttl : Int) :
+    (∃ e, db.toUip ip = .error e ∧ db.updateClient tableStore now ip d ttl = (db, .error e)) ∨
+    ∃ n, db.toUip ip = .ok n ∧
+      ((∃ x lt, db.s.liveIp now n = some x ∧ db.s.liveDuid now d = some x ∧ x.exp ≤ lt ∧ now + ttl ≤ lt ∧
+          db.updateClient tableStore now ip d ttl = ({ db with s := db.s.map (upd x lt) }, .ok ())) ∨
+       (db.s.liveIp now n = none ∧ db.s.liveDuid now d = none ∧
+          ∃ r, db.updateClient tableStore now ip d ttl =
+              ({ db with s := ⟨n, d, now + ttl, false⟩ :: db.s.filter (fun b => b.live now) }, r) ∧
+            (r = .ok () → 0 ≤ ttl)) ∨
+       (¬ Own db.s now n d ∧ ¬ (db.s.liveIp now n = none ∧ db.s.liveDuid now d = none) ∧
+          ∃ r, r ≠ .ok () ∧ db.updateClient tableStore now ip d ttl = (db, r))) := by
+  rw [updateClient_eq]
+  cases htu : db.toUip ip with
+  | error e => exact Or.inl ⟨e, rfl, rfl⟩
+  | ok n =>
+    refine Or.inr ⟨n, rfl, ?_⟩
+    simp only
+    have hT : (tableStore.lookup db.s now n d).1 = db.s := rfl
+    rw [hT]
+    by_cases ho : Own db.s now n d
+    · obtain ⟨x, h1, h2⟩ := ho
+      refine Or.inl ⟨x, (if x.exp > now + ttl then x.exp else now + ttl), h1, h2, ?_, ?_, ?_⟩
+      · split <;> omega
+      · split <;> omega
+      · rw [updTail_own _ h1 h2, ltimeOf_own _ h1 h2]
+    · rw [ltimeOf_not_own _ ho]
+      have c1 : (db.s.setLease now n d (now + ttl)).2 ≠ .ok :=
+        fun hh => ho ((setLease_ok_iff_own db.s now n d (now + ttl)).1 hh)
+      have e1 : (db.s.setLease now n d (now + ttl)).1 = db.s := setLease_fail_eq c1
+      by_cases c2 : (db.s.inject now n d (now + ttl) false).2 = .ok
+      · obtain ⟨h1, h2⟩ := (inject_ok_iff db.s now n d (now + ttl) false).1 c2
+        refine Or.inr (Or.inl ⟨h1, h2, ?_⟩)
+        unfold updTail
+        simp only [tableStore, c1, if_false, e1, inject_ok_eq h1 h2, ne_eq, not_true_eq_false]
+        by_cases hl : now ≤ now + ttl
+        · rw [setLease_ok_of (liveIp_fresh hl) (liveDuid_fresh hl)]
+          refine ⟨.ok (), ?_, fun _ => by omega⟩
+          simp only [if_true]
+          rw [map_upd_self ⟨n, d, now + ttl, false⟩]
+        · have : Table.setLease (⟨n, d, now + ttl, false⟩ :: db.s.filter (fun b => b.live now)) now n d (now + ttl) =
+              (⟨n, d, now + ttl, false⟩ :: db.s.filter (fun b => b.live now), .noIp) := by
+            simp [Table.setLease, liveIp_stale hl h1]
+          rw [this]
+          exact ⟨_, rfl, by simp⟩
+      · refine Or.inr (Or.inr ⟨ho, fun hh => c2 ((inject_ok_iff db.s now n d (now + ttl) false).2 hh), ?_⟩)
+        unfold updTail
+        simp only [tableStore, c1, if_false, e1, c2, ne_eq, not_false_eq_true, if_true, inject_fail_eq c2]
+        exact ⟨_, by simp, rfl⟩
+
+/-- What `AddPermanentClient` does to the reference table. -/
+theorem addPermanent_cases (db : IPDB Table) (now : Int) (ip : Option Ip4) (d : Duid) :
+    ((db.addPermanent tableStore now ip d).2 ≠ .ok ()) ∨
+    ∃ n, db.toUip ip = .ok n ∧ db.s.liveIp now n = none ∧ db.s.liveDuid now d = none ∧
+      db.addPermanent tableStore now ip d =
+        ({ db with s := ⟨n, d, 0, true⟩ :: db.s.filter (fun b => b.live now) }, .ok ()) := by
+  unfold IPDB.addPermanent
+  cases htu : db.toUip ip with
+  | error e => left; simp
+  | ok n =>
+    simp only [tableStore]
+    by_cases c2 : (db.s.inject now n d 0 true).2 = .ok
+    · obtain ⟨h1, h2⟩ := (inject_ok_iff db.s now n d 0 true).1 c2
+      right
+      refine ⟨n, rfl, h1, h2, ?_⟩
+      simp only [inject_ok_eq h1 h2, if_true]
+    · left; simp [c2]
+
+
+/-! ## The invariant of reachable systems -/
+
+/-- The permanent bindings the boot installs: one per client entry with an address, then the server's own. -/
+def permPairs (c : SrvCfg) : List (Nat × Duid) :=
+  c.overrides.filterMap (fun o => o.ip.map fun ip => (ip.toNat, sduid o.mac)) ++ [(c.selfIp.toNat, sduid c.selfMac)]
+
+/-- In the enabled dynamic range of the boot configuration. -/
+def DynOk (b : Boot) (a : Nat) : Prop :=
+  ¬ (b.dynRange.2 = 0 ∧ b.dynRange.1 = 0) ∧ b.dynRange.1 ≤ a ∧ a ≤ b.dynRange.2
+
+/-- What is known of the holder identity a handler computed for its message. -/
+def DuidOk (c : SrvCfg) (rx : Rx) (duid : Duid) : Prop :=
+  rx.msg.chaddr ≠ c.selfMac ∧
+  (duid = sduid rx.msg.chaddr ∨
+    (4 ≤ duid.length ∧ internalPrefix.isPrefixOf duid = false ∧ ∀ q ∈ permPairs c, q.2 ≠ sduid rx.msg.chaddr))
+
+/-- What is known of the address a handler is about to write. -/
+def AddrOk (c : SrvCfg) (b : Boot) (a : Nat) (duid : Duid) : Prop :=
+  a < 4294967296 ∧ ((a, duid) ∈ permPairs c ∨ DynOk b a)
+
+def PendOk (c : SrvCfg) (b : Boot) : Pending → Prop
+  | .a1 rx d => DuidOk c rx d
+  | .a2 rx d a => DuidOk c rx d ∧ AddrOk c b a d
+  | .b1 rx d _ => DuidOk c rx d
+  | .b2 rx d a => DuidOk c rx d ∧ AddrOk c b a d
+  | .done => True
+
+structure DbInv (c : SrvCfg) (b : Boot) (db : IPDB Table) (now : Int) : Prop where
+  nf : db.netFrom = (fromTo b.base b.p).1
+  nt : db.netTo = (fromTo b.base b.p).2
+  df : db.dynFrom = b.dynRange.1
+  dt : db.dynTo = b.dynRange.2
+  rng : b.dynRange.1 ≤ b.dynRange.2 ∧ b.dynRange.2 < 4294967296
+  excl : db.s.Exclusive now
+  permIn : ∀ q ∈ permPairs c, ∃ x ∈ db.s, x.ip = q.1 ∧ x.duid = q.2 ∧ x.perm = true
+  permOnly : ∀ x ∈ db.s, x.perm = true → (x.ip, x.duid) ∈ permPairs c
+  dynOnly : ∀ x ∈ db.s, x.perm = false → DynOk b x.ip
+  inNet : ∀ x ∈ db.s, db.netFrom ≤ x.ip ∧ x.ip ≤ db.netTo ∧ x.ip < 4294967296
+
+/-- Clock-independent facts about a grant, fixed when it is made. -/
+structure SentOk (c : SrvCfg) (b : Boot) (s : Sent) : Prop where
+  duid : DuidOk c s.rx s.duid
+  net : (fromTo b.base b.p).1 ≤ s.addr ∧ s.addr ≤ (fromTo b.base b.p).2 ∧ s.addr < 4294967296
+  cls : (s.addr, s.duid) ∈ permPairs c ∨ ((∀ q ∈ permPairs c, q.1 ≠ s.addr ∧ q.2 ≠ s.duid) ∧ DynOk b s.addr)
+
+/-- A grant has run out, or the table still holds the binding that backs it. -/
+def Granted (c : SrvCfg) (T : Table) (now : Int) (s : Sent) : Prop :=
+  s.t ≤ now ∧ (s.t + s.ttl c < now ∨
+    ∃ x ∈ T, x.ip = s.addr ∧ x.duid = s.duid ∧ (x.perm = true ∨ s.t + s.ttl c ≤ x.exp))
+
+def NoDouble (c : SrvCfg) (sent : List Sent) : Prop :=
+  ∀ s₁ ∈ sent, ∀ s₂ ∈ sent, s₁.kind ≠ .nak → s₂.kind ≠ .nak → s₁.addr = s₂.addr → s₁.duid ≠ s₂.duid →
+    s₁.t ≤ s₂.t → s₁.t + s₁.ttl c < s₂.t
+
+structure SentInv (c : SrvCfg) (b : Boot) (T : Table) (now : Int) (sent : List Sent) (calls : List (Int × DbOp)) : Prop where
+  ok : ∀ s ∈ sent, s.kind ≠ .nak → SentOk c b s
+  gr : ∀ s ∈ sent, s.kind ≠ .nak → Granted c T now s
+  cl : ∀ s ∈ sent, s.kind ≠ .nak → (s.t, DbOp.updateClient (some (Ip4.ofNat s.addr)) s.duid (s.ttl c)) ∈ calls
+  nd : 0 ≤ c.leaseNs → NoDouble c sent
+
+structure Inv (c : SrvCfg) (b : Boot) (sys : Sys Table) (now : Int) : Prop where
+  db : DbInv c b sys.db now
+  pend : ∀ p ∈ sys.pend, PendOk c b p
+  sent : SentInv c b sys.db.s now sys.sent sys.calls
+
+theorem perm_live {x : Binding} (h : x.perm = true) (t : Int) : x.live t = true := by
+  simp [Binding.live, h]
+
+theorem DbInv.mono {c : SrvCfg} {b : Boot} {db : IPDB Table} {t t' : Int} (h : DbInv c b db t) (htt : t ≤ t') :
+    DbInv c b db t' :=
+  { h with excl := exclusive_mono h.excl htt }
+
+theorem Granted.mono {c : SrvCfg} {T : Table} {t t' : Int} {s : Sent} (h : Granted c T t s) (htt : t ≤ t') :
+    Granted c T t' s := by
+  refine ⟨by have := h.1; omega, ?_⟩
+  rcases h.2 with h2 | h2
+  · exact Or.inl (by omega)
+  · exact Or.inr h2
+
+theorem SentInv.mono {c : SrvCfg} {b : Boot} {T : Table} {t t' : Int} {sent : List Sent} {calls : List (Int × DbOp)}
+    (h : SentInv c b T t sent calls) (htt : t ≤ t') : SentInv c b T t' sent calls :=
+  { h with gr := fun s hs hk => (h.gr s hs hk).mono htt }
+
+theorem Inv.mono {c : SrvCfg} {b : Boot} {sys : Sys Table} {t t' : Int} (h : Inv c b sys t) (htt : t ≤ t') :
+    Inv c b sys t' :=
+  ⟨h.db.mono htt, h.pend, h.sent.mono htt⟩
+
+theorem SentInv.addCall {c : SrvCfg} {b : Boot} {T : Table} {t : Int} {sent : List Sent} {calls : List (Int × DbOp)}
+    (h : SentInv c b T t sent calls) (x : Int × DbOp) : SentInv c b T t sent (x :: calls) :=
+  { h with cl := fun s hs hk => List.mem_cons_of_mem _ (h.cl s hs hk) }
+
+/-- A permanent pair is found by identity at every clock the table is exclusive at. -/
+theorem DbInv.perm_liveDuid {c : SrvCfg} {b : Boot} {db : IPDB Table} {t : Int} (h : DbInv c b db t)
+    {q : Nat × Duid} (hq : q ∈ permPairs c) :
+    ∃ x, db.s.liveDuid t q.2 = some x ∧ x ∈ db.s ∧ x.ip = q.1 ∧ x.duid = q.2 ∧ x.perm = true := by
+  obtain ⟨x, hx, h1, h2, h3⟩ := h.permIn q hq
+  refine ⟨x, ?_, hx, h1, h2, h3⟩
+  rw [← h2]; exact liveDuid_of_mem h.excl hx (perm_live h3 t)
+
+/-- A live binding that shares address or identity with a permanent pair is that permanent binding. -/
+theorem DbInv.perm_unique {c : SrvCfg} {b : Boot} {db : IPDB Table} {t : Int} (h : DbInv c b db t)
+    {q : Nat × Duid} (hq : q ∈ permPairs c) {y : Binding} (hy : y ∈ db.s) (hl : y.live t = true)
+    (hs : y.ip = q.1 ∨ y.duid = q.2) : y.ip = q.1 ∧ y.duid = q.2 ∧ y.perm = true := by
+  obtain ⟨x, hx, h1, h2, h3⟩ := h.permIn q hq
+  have : y = x := h.excl y hy x hx hl (perm_live h3 t) (by rw [h1, h2]; exact hs)
+  subst this; exact ⟨h1, h2, h3⟩
+
+/-- Two permanent pairs sharing address or identity coincide. -/
+theorem DbInv.pairs_unique {c : SrvCfg} {b : Boot} {db : IPDB Table} {t : Int} (h : DbInv c b db t)
+    {q r : Nat × Duid} (hq : q ∈ permPairs c) (hr : r ∈ permPairs c) (hs : q.1 = r.1 ∨ q.2 = r.2) : q = r := by
+  obtain ⟨x, hx, h1, h2, h3⟩ := h.permIn q hq
+  obtain ⟨e1, e2, -⟩ := h.perm_unique hr hx (perm_live h3 t) (by rw [h1, h2]; exact hs)
+  rw [h1] at e1; rw [h2] at e2
+  exact Prod.ext e1 e2
+
+/-! ### `UpdateClient` and the invariant -/
+
+
+/-! ### `UpdateClient` and the invariant -/
+
+/-- Everything the invariant needs to know about one `UpdateClient` on the table. -/
+structure UpdFacts (db : IPDB Table) (t : Int) (ip : Option Ip4) (d : Duid) (ttl : Int)
+    (u : IPDB Table × Except DbErr Unit) : Prop where
+  nf : u.1.netFrom = db.netFrom
+  nt : u.1.netTo = db.netTo
+  df : u.1.dynFrom = db.dynFrom
+  dt : u.1.dynTo = db.dynTo
+  excl : db.s.Exclusive t → u.1.s.Exclusive t
+  ext : ∀ x ∈ db.s, x.live t = true →
+    ∃ x' ∈ u.1.s, x'.ip = x.ip ∧ x'.duid = x.duid ∧ x'.perm = x.perm ∧ x.exp ≤ x'.exp
+  back : ∀ x' ∈ u.1.s, (∃ x ∈ db.s, x'.ip = x.ip ∧ x'.duid = x.duid ∧ x'.perm = x.perm) ∨
+    (∃ n, db.toUip ip = .ok n ∧ x'.ip = n ∧ x'.duid = d ∧ x'.perm = false ∧
+      db.s.liveIp t n = none ∧ db.s.liveDuid t d = none)
+  succ : u.2 = .ok () → ∃ n, db.toUip ip = .ok n ∧ ∃ x' ∈ u.1.s, x'.ip = n ∧ x'.duid = d ∧ t + ttl ≤ x'.exp ∧
+    ((∃ x ∈ db.s, x.live t = true ∧ x.ip = n ∧ x.duid = d) ∨
+     (db.s.liveIp t n = none ∧ db.s.liveDuid t d = none))
+
+theorem updFacts_same (db : IPDB Table) (t : Int) (ip : Option Ip4) (d : Duid) (ttl : Int) (r : Except DbErr Unit)
+    (hr : r ≠ .ok ()) : UpdFacts db t ip d ttl (db, r) where
+  nf := rfl
+  nt := rfl
+  df := rfl
+  dt := rfl
+  excl := id
+  ext := fun x hx _ => ⟨x, hx, rfl, rfl, rfl, Int.le_refl _⟩
+  back := fun x hx => Or.inl ⟨x, hx, rfl, rfl, rfl⟩
+  succ := fun h => absurd h hr
+
+theorem updFacts (db : IPDB Table) (t : Int) (ip : Option Ip4) (d : Duid) (ttl : Int) :
+    UpdFacts db t ip d ttl (db.updateClient tableStore t ip d ttl) := by
+  rcases update_cases db t ip d ttl with ⟨e, -, he⟩ | ⟨n, hn, hc⟩
+  · rw [he]; exact updFacts_same db t ip d ttl _ (by simp)
+  · rcases hc with ⟨x, lt, h1, h2, hle, hlt, he⟩ | ⟨h1, h2, r, he, hr⟩ | ⟨-, -, r, hr, he⟩
+    · rw [he]
+      obtain ⟨mx, hip, hl⟩ := liveIp_some h1
+      obtain ⟨-, hd, -⟩ := liveDuid_some h2
+      have hmem : upd x lt x ∈ db.s.map (upd x lt) := List.mem_map.2 ⟨x, mx, rfl⟩
+      refine ⟨rfl, rfl, rfl, rfl, ?_, ?_, ?_, ?_⟩
+      · intro hx
+        have := setLease_exclusive n d lt hx
+        rwa [setLease_ok_of h1 h2] at this
+      · intro y hy _
+        refine ⟨upd x lt y, List.mem_map.2 ⟨y, hy, rfl⟩, upd_ip _ _ _, upd_duid _ _ _, upd_perm _ _ _, ?_⟩
+        by_cases hyx : y = x
+        · subst hyx; rw [upd_self]; exact hle
+        · rw [upd_ne hyx]; exact Int.le_refl _
+      · intro y' hy'
+        obtain ⟨y, hy, rfl⟩ := List.mem_map.1 hy'
+        exact Or.inl ⟨y, hy, upd_ip _ _ _, upd_duid _ _ _, upd_perm _ _ _⟩
+      · intro _
+        refine ⟨n, hn, upd x lt x, hmem, ?_, ?_, ?_, Or.inl ⟨x, mx, hl, hip, hd⟩⟩
+        · rw [upd_ip]; exact hip
+        · rw [upd_duid]; exact hd
+        · rw [upd_self]; exact hlt
+    · rw [he]
+      refine ⟨rfl, rfl, rfl, rfl, ?_, ?_, ?_, ?_⟩
+      · intro hx
+        have := inject_exclusive n d (t + ttl) false hx
+        rwa [inject_ok_eq h1 h2] at this
+      · intro y hy hl
+        exact ⟨y, List.mem_cons_of_mem _ (List.mem_filter.2 ⟨hy, hl⟩), rfl, rfl, rfl, Int.le_refl _⟩
+      · intro y' hy'
+        rcases List.mem_cons.1 hy' with rfl | hy'
+        · exact Or.inr ⟨n, hn, rfl, rfl, rfl, h1, h2⟩
+        · exact Or.inl ⟨y', (List.mem_filter.1 hy').1, rfl, rfl, rfl⟩
+      · intro _
+        exact ⟨n, hn, _, List.mem_cons_self, rfl, rfl, Int.le_refl _, Or.inr ⟨h1, h2⟩⟩
+    · rw [he]; exact updFacts_same db t ip d ttl _ hr
+
+theorem toUip_some {σ : Type} {db : IPDB σ} {i : Ip4} {n : Nat} (h : db.toUip (some i) = .ok n) :
+    n = i.toNat ∧ db.netFrom ≤ n ∧ n ≤ db.netTo := by
+  unfold IPDB.toUip at h
+  simp only at h
+  split at h
+  · cases h
+  · cases h; omega
+
+/-- The database part of the invariant survives an `UpdateClient` of a handler. -/
+theorem DbInv.update {c : SrvCfg} {b : Boot} {db : IPDB Table} {t : Int} (h : DbInv c b db t)
+    {a : Nat} {d : Duid} (ha : AddrOk c b a d) (ttl : Int) :
+    DbInv c b (db.updateClient tableStore t (some (Ip4.ofNat a)) d ttl).1 t := by
+  have f := updFacts db t (some (Ip4.ofNat a)) d ttl
+  generalize db.updateClient tableStore t (some (Ip4.ofNat a)) d ttl = u at f
+  refine ⟨f.nf.trans h.nf, f.nt.trans h.nt, f.df.trans h.df, f.dt.trans h.dt, h.rng, f.excl h.excl, ?_, ?_, ?_, ?_⟩
+  · intro q hq
+    obtain ⟨x, hx, h1, h2, h3⟩ := h.permIn q hq
+    obtain ⟨x', hx', e1, e2, e3, -⟩ := f.ext x hx (perm_live h3 t)
+    exact ⟨x', hx', e1.trans h1, e2.trans h2, e3.trans h3⟩
+  · intro x' hx' hp
+    rcases f.back x' hx' with ⟨x, hx, e1, e2, e3⟩ | ⟨n, -, -, -, e3, -, -⟩
+    · rw [e1, e2]; exact h.permOnly x hx (e3 ▸ hp)
+    · rw [e3] at hp; cases hp
+  · intro x' hx' hp
+    rcases f.back x' hx' with ⟨x, hx, e1, e2, e3⟩ | ⟨n, hn, e1, e2, -, -, h2⟩
+    · rw [e1]; exact h.dynOnly x hx (e3 ▸ hp)
+    · obtain ⟨hn1, -, -⟩ := toUip_some hn
+      rw [Ip4.toNat_ofNat ha.1] at hn1
+      rw [e1, hn1]
+      rcases ha.2 with hq | hd
+      · obtain ⟨y, hy, -⟩ := h.perm_liveDuid hq
+        have hy' : db.s.liveDuid t d = some y := hy
+        rw [h2] at hy'; cases hy'
+      · exact hd
+  · intro x' hx'
+    rw [f.nf, f.nt]
+    rcases f.back x' hx' with ⟨x, hx, e1, e2, e3⟩ | ⟨n, hn, e1, -, -, -, -⟩
+    · rw [e1]; exact h.inNet x hx
+    · obtain ⟨hn1, hn2, hn3⟩ := toUip_some hn
+      rw [e1]
+      exact ⟨hn2, hn3, by rw [hn1]; exact Ip4.toNat_lt _⟩
+
+/-- Grants stay backed across an `UpdateClient`: live bindings keep their holder and never shrink. -/
+theorem SentInv.update {c : SrvCfg} {b : Boot} {db : IPDB Table} {t : Int} {sent : List Sent}
+    {calls : List (Int × DbOp)} (hs : SentInv c b db.s t sent calls) (ip : Option Ip4) (d : Duid) (ttl : Int)
+    (x : Int × DbOp) :
+    SentInv c b (db.updateClient tableStore t ip d ttl).1.s t sent (x :: calls) := by
+  have f := updFacts db t ip d ttl
+  generalize db.updateClient tableStore t ip d ttl = u at f
+  refine ⟨hs.ok, ?_, fun s h1 h2 => List.mem_cons_of_mem _ (hs.cl s h1 h2), hs.nd⟩
+  intro s h1 h2
+  obtain ⟨g1, g2⟩ := hs.gr s h1 h2
+  refine ⟨g1, ?_⟩
+  by_cases hexp : s.t + s.ttl c < t
+  · exact Or.inl hexp
+  · rcases g2 with g2 | ⟨y, hy, e1, e2, e3⟩
+    · exact Or.inl g2
+    · have hl : y.live t = true := by
+        simp only [Binding.live, Bool.or_eq_true, decide_eq_true_eq]
+        rcases e3 with e3 | e3
+        · exact Or.inl e3
+        · exact Or.inr (by omega)
+      obtain ⟨y', hy', f1, f2, f3, f4⟩ := f.ext y hy hl
+      refine Or.inr ⟨y', hy', f1.trans e1, f2.trans e2, ?_⟩
+      rcases e3 with e3 | e3
+      · exact Or.inl (f3.trans e3)
+      · exact Or.inr (by omega)
+
+theorem ttl_nonneg {c : SrvCfg} (hl : 0 ≤ c.leaseNs) (s : Sent) : 0 ≤ s.ttl c := by
+  unfold Sent.ttl
+  cases s.kind <;> simp only [offerHoldNs] <;> omega
+
+/-- A successful `UpdateClient` of a handler justifies appending its grant. -/
+theorem SentInv.grant {c : SrvCfg} {b : Boot} {db : IPDB Table} {t : Int} {sent : List Sent}
+    {calls : List (Int × DbOp)} (h : DbInv c b db t) (hs : SentInv c b db.s t sent calls)
+    {rx : Rx} {a : Nat} {d : Duid} (hd : DuidOk c rx d) (ha : AddrOk c b a d) (kind : ReplyKind)
+    (frame : Frame) (ttl : Int) (httl : ttl = (⟨t, kind, a, d, rx, frame⟩ : Sent).ttl c)
+    (hok : (db.updateClient tableStore t (some (Ip4.ofNat a)) d ttl).2 = .ok ()) :
+    SentInv c b (db.updateClient tableStore t (some (Ip4.ofNat a)) d ttl).1.s t
+      (⟨t, kind, a, d, rx, frame⟩ :: sent) ((t, DbOp.updateClient (some (Ip4.ofNat a)) d ttl) :: calls) := by
+  have hold := hs.update (db := db) (some (Ip4.ofNat a)) d ttl (t, DbOp.updateClient (some (Ip4.ofNat a)) d ttl)
+  have f := updFacts db t (some (Ip4.ofNat a)) d ttl
+  generalize db.updateClient tableStore t (some (Ip4.ofNat a)) d ttl = u at f hok hold
+  obtain ⟨n, hn, x', hx', e1, e2, e3, hcase⟩ := f.succ hok
+  obtain ⟨hn1, hn2, hn3⟩ := toUip_some hn
+  rw [Ip4.toNat_ofNat ha.1] at hn1
+  subst hn1
+  -- an earlier grant of the same address to someone else has run out
+  have hexpired : ∀ s ∈ sent, s.kind ≠ .nak → s.addr = n → s.duid ≠ d → s.t + s.ttl c < t := by
+    intro s h1 h2 h3 h4
+    obtain ⟨g1, g2⟩ := hs.gr s h1 h2
+    rcases g2 with g2 | ⟨y, hy, f1, f2, f3⟩
+    · exact g2
+    · by_cases hexp : s.t + s.ttl c < t
+      · exact hexp
+      · have hl : y.live t = true := by
+          simp only [Binding.live, Bool.or_eq_true, decide_eq_true_eq]
+          rcases f3 with f3 | f3
+          · exact Or.inl f3
+          · exact Or.inr (by omega)
+        rcases hcase with ⟨z, hz, hzl, z1, z2⟩ | ⟨c1, -⟩
+        · have : y = z := h.excl y hy z hz hl hzl (Or.inl (by rw [f1, z1, h3]))
+          subst this
+          exact absurd (f2.symm.trans z2) h4
+        · exact absurd (f1.trans h3) (liveIp_none c1 y hy hl)
+  refine ⟨?_, ?_, ?_, ?_⟩
+  · intro s h1 h2
+    rcases List.mem_cons.1 h1 with rfl | h1
+    · refine ⟨hd, ⟨by rw [← h.nf]; exact hn2, by rw [← h.nt]; exact hn3, ha.1⟩, ?_⟩
+      show (n, d) ∈ permPairs c ∨ _
+      rcases hcase with ⟨z, hz, hzl, z1, z2⟩ | ⟨c1, c2⟩
+      · cases hzp : z.perm with
+        | true => left; have := h.permOnly z hz hzp; rwa [z1, z2] at this
+        | false =>
+          right
+          refine ⟨?_, z1 ▸ h.dynOnly z hz hzp⟩
+          intro q hq
+          constructor
+          · intro hq1
+            obtain ⟨-, -, hp⟩ := h.perm_unique hq hz hzl (Or.inl (by rw [z1, hq1]))
+            rw [hzp] at hp; cases hp
+          · intro hq2
+            obtain ⟨-, -, hp⟩ := h.perm_unique hq hz hzl (Or.inr (by rw [z2, hq2]))
+            rw [hzp] at hp; cases hp
+      · have hno : ∀ q ∈ permPairs c, q.1 ≠ n ∧ q.2 ≠ d := by
+          intro q hq
+          obtain ⟨y, hy, y1, y2, y3⟩ := h.permIn q hq
+          exact ⟨fun hq1 => liveIp_none c1 y hy (perm_live y3 t) (y1.trans hq1),
+                 fun hq2 => liveDuid_none c2 y hy (perm_live y3 t) (y2.trans hq2)⟩
+        right
+        refine ⟨hno, ?_⟩
+        rcases ha.2 with hq | hdyn
+        · exact absurd rfl (hno _ hq).1
+        · exact hdyn
+    · exact hs.ok s h1 h2
+  · intro s h1 h2
+    rcases List.mem_cons.1 h1 with rfl | h1
+    · refine ⟨Int.le_refl _, Or.inr ⟨x', hx', e1, e2, Or.inr ?_⟩⟩
+      rw [← httl]; exact e3
+    · exact hold.gr s h1 h2
+  · intro s h1 h2
+    rcases List.mem_cons.1 h1 with rfl | h1
+    · rw [← httl]; exact List.mem_cons_self
+    · exact hold.cl s h1 h2
+  · intro hl s₁ h1 s₂ h2 k1 k2 hadr hne hle
+    rcases List.mem_cons.1 h1 with rfl | h1 <;> rcases List.mem_cons.1 h2 with rfl | h2
+    · exact absurd rfl hne
+    · -- the new grant first, an old one at the same clock: impossible
+      have := hexpired s₂ h2 k2 hadr.symm (Ne.symm hne)
+      have g1 := (hs.gr s₂ h2 k2).1
+      have := ttl_nonneg hl s₂
+      simp only at hle
+      omega
+    · exact hexpired s₁ h1 k1 hadr hne
+    · exact hs.nd hl s₁ h1 s₂ h2 k1 k2 hadr hne hle
+
+/-! ### One event -/
+
+theorem todo_self {σ : Type} {c : SrvCfg} {db : IPDB σ} {rx : Rx} (h : c.selfMac = rx.msg.chaddr) :
+    todo c db rx = .drop := by
+  unfold todo; simp only [h, if_true]
+
+theorem binding_addrOk {c : SrvCfg} {b : Boot} {db : IPDB Table} {t : Int} (h : DbInv c b db t)
+    {x : Binding} (hx : x ∈ db.s) : AddrOk c b x.ip x.duid := by
+  refine ⟨(h.inNet x hx).2.2, ?_⟩
+  cases hp : x.perm with
+  | true => exact Or.inl (h.permOnly x hx hp)
+  | false => exact Or.inr (h.dynOnly x hx hp)
+
+theorem find_addrOk {c : SrvCfg} {b : Boot} {db : IPDB Table} {t : Int} (h : DbInv c b db t)
+    (sugg : Option Ip4) (d : Duid) (perm : List Nat) (orc : Nat → IPDB.Iter) (a : Nat)
+    (hp : ∀ v ∈ perm, v ≤ b.dynRange.2 - b.dynRange.1)
+    (hres : (db.findIP tableStore t sugg d perm orc).2 = .ok a) : AddrOk c b a d := by
+  cases hl : db.s.liveDuid t d with
+  | some x =>
+    rw [find_existing db t sugg d perm orc x hl] at hres
+    obtain ⟨hx, hd, -⟩ := liveDuid_some hl
+    cases hres
+    rw [← hd]; exact binding_addrOk h hx
+  | none =>
+    have hen : ¬ (db.dynTo = 0 ∧ db.dynFrom = 0) := by
+      intro hd
+      rw [find_disabled db t sugg d perm orc hl hd] at hres; cases hres
+    obtain ⟨h1, h2, -, -⟩ := find_result_eligible db t sugg d perm orc a hl
+      (by rw [h.df, h.dt]; exact hp) (by rw [h.df, h.dt]; exact h.rng) hres
+    rw [h.df, h.dt] at hen
+    rw [h.df] at h1; rw [h.dt] at h2
+    exact ⟨by have := h.rng.2; omega, Or.inr ⟨hen, h1, h2⟩⟩
+
+theorem getDuid_duidOk {c : SrvCfg} {b : Boot} {db : IPDB Table} {t : Int} (h : DbInv c b db t) (rx : Rx) (cid : Bytes)
+    (hne : c.selfMac ≠ rx.msg.chaddr) : DuidOk c rx (getDuid tableStore db t rx.msg.chaddr cid).2 := by
+  refine ⟨Ne.symm hne, ?_⟩
+  rcases holder_identity tableStore db t rx.msg.chaddr cid with h1 | ⟨h1, h2, h3⟩
+  · exact Or.inl h1
+  · right
+    rw [h1]
+    refine ⟨h2, h3, ?_⟩
+    have hne' : (getDuid tableStore db t rx.msg.chaddr cid).2 ≠ sduid rx.msg.chaddr := by
+      rw [h1]; intro he; rw [he, sduid_prefix] at h3; cases h3
+    have hnone := getDuid_table_cid db t _ _ hne'
+    intro q hq hq2
+    obtain ⟨x, hx, -⟩ := h.perm_liveDuid hq
+    rw [hq2, hnone] at hx; cases hx
+
+theorem mem_setPend {σ : Type} {s : Sys σ} {i : Nat} {p q : Pending} (h : q ∈ (s.setPend i p).pend) :
+    q ∈ s.pend ∨ q = p := List.mem_or_eq_of_mem_set h
+
+
+theorem step_recv {c : SrvCfg} {b : Boot} {sys : Sys Table} {now : Int} (hi : Inv c b sys now) (t : Int) (bytes : Bytes)
+    (ht : now ≤ (Ev.t (.recv t bytes))) (_hc : Ev.ClockOk (.recv t bytes)) (_hp : Ev.PermOk b.dynRange.1 b.dynRange.2 (.recv t bytes)) :
+    Inv c b (Sys.step tableStore c sys (.recv t bytes)) (Ev.tEnd (.recv t bytes)) := by
+  have hi := hi.mono ht
+  simp only [Ev.t] at hi
+  simp only [Sys.step, Ev.tEnd, Ev.t]
+  split
+  · rename_i rx hrx
+    simp only [getDuid_table_fst]
+    have hsent := hi.sent.addCall (t, DbOp.lookupByDuid (sduid rx.msg.chaddr))
+    split
+    · exact ⟨hi.db, hi.pend, hsent⟩
+    · rename_i htd
+      have hne : c.selfMac ≠ rx.msg.chaddr := fun he => by rw [todo_self he] at htd; cases htd
+      refine ⟨hi.db, ?_, hsent⟩
+      intro p hpm
+      rcases List.mem_append.1 hpm with hp | hp
+      · exact hi.pend p hp
+      · rw [List.mem_singleton.1 hp]
+        exact getDuid_duidOk hi.db rx _ hne
+    · rename_i want htd
+      have hne : c.selfMac ≠ rx.msg.chaddr := fun he => by rw [todo_self he] at htd; cases htd
+      refine ⟨hi.db, ?_, hsent⟩
+      intro p hpm
+      rcases List.mem_append.1 hpm with hp | hp
+      · exact hi.pend p hp
+      · rw [List.mem_singleton.1 hp]
+        exact getDuid_duidOk hi.db rx _ hne
+  · exact hi
+
+
+theorem step_find {c : SrvCfg} {b : Boot} {sys : Sys Table} {now : Int} (hi : Inv c b sys now) (i : Nat) (t : Int) (perm : List Nat) (orc : Nat → IPDB.Iter) (tEnd : Int)
+    (ht : now ≤ (Ev.t (.find i t perm orc tEnd))) (hc : Ev.ClockOk (.find i t perm orc tEnd)) (hp : Ev.PermOk b.dynRange.1 b.dynRange.2 (.find i t perm orc tEnd)) :
+    Inv c b (Sys.step tableStore c sys (.find i t perm orc tEnd)) (Ev.tEnd (.find i t perm orc tEnd)) := by
+  have hi := hi.mono ht
+  have hte : t ≤ tEnd := Int.le_trans hc.1 (hc.2.2 0)
+  simp only [Ev.t] at hi
+  simp only [Sys.step, Ev.tEnd]
+  split
+  · rename_i rx duid hpi
+    have hpo : DuidOk c rx duid := hi.pend _ (List.mem_of_getElem? hpi)
+    simp only [findIP_table_fst]
+    have hsent := hi.sent.addCall (t, DbOp.findIP (decodeOptions rx.msg.options).requestedIP duid perm orc tEnd)
+    split
+    · refine Inv.mono ⟨hi.db, ?_, hsent⟩ hte
+      intro p hpm
+      rcases mem_setPend hpm with hp | rfl
+      · exact hi.pend p hp
+      · trivial
+    · rename_i a hres
+      refine Inv.mono ⟨hi.db, ?_, hsent⟩ hte
+      intro p hpm
+      rcases mem_setPend hpm with hp | rfl
+      · exact hi.pend p hp
+      · exact ⟨hpo, find_addrOk hi.db _ _ _ _ _ hp hres⟩
+  · exact hi.mono hte
+
+
+/-! The `hold` and `lease` branches contain `UpdateClient` on a symbolic address; the kernel must never be asked to
+evaluate it, so the outer `match` on the handler is reduced by explicit equations about the two matchers of
+`Sys.step` (no `split`, no `simp`), and the call is generalised before anything else is done. -/
+
+theorem hold_match {σ : Type} {o : Option Pending} {rx : Rx} {duid : Duid} {a : Nat} (ho : o = some (.a2 rx duid a))
+    (F : Rx → Duid → Nat → Sys σ) (g : Option Pending → Sys σ) :
+    Sys.step.match_14 (fun _ => Sys σ) o F g = F rx duid a := by
+  subst ho; rfl
+
+theorem hold_match_other {σ : Type} {o : Option Pending} (ho : ∀ rx duid a, o ≠ some (.a2 rx duid a))
+    (F : Rx → Duid → Nat → Sys σ) (g : Option Pending → Sys σ) :
+    Sys.step.match_14 (fun _ => Sys σ) o F g = g o := by
+  cases o with
+  | none => rfl
+  | some p =>
+    cases p with
+    | a2 rx duid a => exact absurd rfl (ho rx duid a)
+    | _ => rfl
+
+theorem lease_match {σ : Type} {o : Option Pending} {rx : Rx} {duid : Duid} {a : Nat} (ho : o = some (.b2 rx duid a))
+    (F : Rx → Duid → Nat → Sys σ) (g : Option Pending → Sys σ) :
+    Sys.step.match_20 (fun _ => Sys σ) o F g = F rx duid a := by
+  subst ho; rfl
+
+theorem lease_match_other {σ : Type} {o : Option Pending} (ho : ∀ rx duid a, o ≠ some (.b2 rx duid a))
+    (F : Rx → Duid → Nat → Sys σ) (g : Option Pending → Sys σ) :
+    Sys.step.match_20 (fun _ => Sys σ) o F g = g o := by
+  cases o with
+  | none => rfl
+  | some p =>
+    cases p with
+    | b2 rx duid a => exact absurd rfl (ho rx duid a)
+    | _ => rfl
+
+theorem step_hold {c : SrvCfg} {b : Boot} {sys : Sys Table} {now : Int} (hi : Inv c b sys now) (i : Nat) (t : Int)
+    (ht : now ≤ (Ev.t (.hold i t))) :
+    Inv c b (Sys.step tableStore c sys (.hold i t)) (Ev.tEnd (.hold i t)) := by
+  have hi := hi.mono ht
+  change Inv c b sys t at hi
+  change Inv c b (Sys.step tableStore c sys (.hold i t)) t
+  rw [Sys.step]
+  by_cases hex : ∃ rx duid a, sys.pend[i]? = some (.a2 rx duid a)
+  · obtain ⟨rx, duid, a, hpi⟩ := hex
+    rw [hold_match hpi]
+    obtain ⟨hpo, hao⟩ : DuidOk c rx duid ∧ AddrOk c b a duid := hi.pend _ (List.mem_of_getElem? hpi)
+    have hdb := hi.db.update hao offerHoldNs
+    have hs1 := hi.sent.update (db := sys.db) (some (Ip4.ofNat a)) duid offerHoldNs
+      (t, DbOp.updateClient (some (Ip4.ofNat a)) duid offerHoldNs)
+    have hs2 := fun hok => SentInv.grant hi.db hi.sent hpo hao .offer (leaseFrame c .offer rx.msg (Ip4.ofNat a))
+      offerHoldNs rfl hok
+    generalize sys.db.updateClient tableStore t (some (Ip4.ofNat a)) duid offerHoldNs = u at hdb hs1 hs2 ⊢
+    obtain ⟨db', r⟩ := u
+    cases r with
+    | error e =>
+      refine ⟨hdb, ?_, hs1⟩
+      intro p hpm
+      rcases mem_setPend hpm with hp | rfl
+      · exact hi.pend p hp
+      · trivial
+    | ok v =>
+      refine ⟨hdb, ?_, hs2 rfl⟩
+      intro p hpm
+      rcases mem_setPend hpm with hp | rfl
+      · exact hi.pend p hp
+      · trivial
+  · rw [hold_match_other (fun rx duid a h => hex ⟨rx, duid, a, h⟩)]
+    exact hi
+
+theorem step_look {c : SrvCfg} {b : Boot} {sys : Sys Table} {now : Int} (hi : Inv c b sys now) (i : Nat) (t : Int) (probeFree : Bool)
+    (ht : now ≤ (Ev.t (.look i t probeFree))) (_hc : Ev.ClockOk (.look i t probeFree)) (_hp : Ev.PermOk b.dynRange.1 b.dynRange.2 (.look i t probeFree)) :
+    Inv c b (Sys.step tableStore c sys (.look i t probeFree)) (Ev.tEnd (.look i t probeFree)) := by
+  have hi := hi.mono ht
+  simp only [Ev.t] at hi
+  simp only [Sys.step, Ev.tEnd, Ev.t]
+  split
+  · rename_i rx duid want hpi
+    have hpo : DuidOk c rx duid := hi.pend _ (List.mem_of_getElem? hpi)
+    simp only [lookupByDuid_table]
+    have hsent := hi.sent.addCall (t, DbOp.lookupByDuid duid)
+    have hnak : Inv c b
+        { db := sys.db, pend := (sys.pend.set i .done), sent := ⟨t, .nak, 0, duid, rx, nakFrame c rx.msg⟩ :: sys.sent,
+          calls := (t, DbOp.lookupByDuid duid) :: sys.calls } t := by
+      refine ⟨hi.db, ?_, ?_⟩
+      · intro p hpm
+        rcases List.mem_or_eq_of_mem_set hpm with hp | rfl
+        · exact hi.pend p hp
+        · trivial
+      · refine ⟨?_, ?_, ?_, ?_⟩
+        · intro s h1 h2
+          rcases List.mem_cons.1 h1 with rfl | h1
+          · exact absurd rfl h2
+          · exact hsent.ok s h1 h2
+        · intro s h1 h2
+          rcases List.mem_cons.1 h1 with rfl | h1
+          · exact absurd rfl h2
+          · exact hsent.gr s h1 h2
+        · intro s h1 h2
+          rcases List.mem_cons.1 h1 with rfl | h1
+          · exact absurd rfl h2
+          · exact hsent.cl s h1 h2
+        · intro hl s₁ h1 s₂ h2 k1 k2
+          rcases List.mem_cons.1 h1 with rfl | h1
+          · exact absurd rfl k1
+          · rcases List.mem_cons.1 h2 with rfl | h2
+            · exact absurd rfl k2
+            · exact hsent.nd hl s₁ h1 s₂ h2 k1 k2
+    split
+    · exact hnak
+    · rename_i lease hres
+      split
+      · exact hnak
+      · split
+        · exact hnak
+        · refine ⟨hi.db, ?_, hsent⟩
+          intro p hpm
+          rcases mem_setPend hpm with hp | rfl
+          · exact hi.pend p hp
+          · refine ⟨hpo, ?_⟩
+            cases hl : sys.db.s.liveDuid t duid with
+            | none => rw [hl] at hres; cases hres
+            | some x =>
+              rw [hl] at hres
+              obtain ⟨hx, hd, -⟩ := liveDuid_some hl
+              cases hres
+              rw [← hd]; exact binding_addrOk hi.db hx
+  · exact hi
+
+
+theorem step_lease {c : SrvCfg} {b : Boot} {sys : Sys Table} {now : Int} (hi : Inv c b sys now) (i : Nat) (t : Int)
+    (ht : now ≤ (Ev.t (.lease i t))) :
+    Inv c b (Sys.step tableStore c sys (.lease i t)) (Ev.tEnd (.lease i t)) := by
+  have hi := hi.mono ht
+  change Inv c b sys t at hi
+  change Inv c b (Sys.step tableStore c sys (.lease i t)) t
+  rw [Sys.step]
+  by_cases hex : ∃ rx duid a, sys.pend[i]? = some (.b2 rx duid a)
+  · obtain ⟨rx, duid, a, hpi⟩ := hex
+    rw [lease_match hpi]
+    obtain ⟨hpo, hao⟩ : DuidOk c rx duid ∧ AddrOk c b a duid := hi.pend _ (List.mem_of_getElem? hpi)
+    have hdb := hi.db.update hao c.leaseNs
+    have hs1 := hi.sent.update (db := sys.db) (some (Ip4.ofNat a)) duid c.leaseNs
+      (t, DbOp.updateClient (some (Ip4.ofNat a)) duid c.leaseNs)
+    have hs2 := fun hok => SentInv.grant hi.db hi.sent hpo hao .ack (leaseFrame c .ack rx.msg (Ip4.ofNat a))
+      c.leaseNs rfl hok
+    generalize sys.db.updateClient tableStore t (some (Ip4.ofNat a)) duid c.leaseNs = u at hdb hs1 hs2 ⊢
+    obtain ⟨db', r⟩ := u
+    cases r with
+    | error e =>
+      refine ⟨hdb, ?_, hs1⟩
+      intro p hpm
+      rcases mem_setPend hpm with hp | rfl
+      · exact hi.pend p hp
+      · trivial
+    | ok v =>
+      refine ⟨hdb, ?_, hs2 rfl⟩
+      intro p hpm
+      rcases mem_setPend hpm with hp | rfl
+      · exact hi.pend p hp
+      · trivial
+  · rw [lease_match_other (fun rx duid a h => hex ⟨rx, duid, a, h⟩)]
+    exact hi
+
+theorem step_inv {c : SrvCfg} {b : Boot} {sys : Sys Table} {now : Int} (hi : Inv c b sys now) (e : Ev)
+    (ht : now ≤ e.t) (hc : e.ClockOk) (hp : Ev.PermOk b.dynRange.1 b.dynRange.2 e) :
+    Inv c b (Sys.step tableStore c sys e) e.tEnd := by
+  cases e with
+  | recv t bytes => exact step_recv hi t bytes ht hc hp
+  | find i t perm orc tEnd => exact step_find hi i t perm orc tEnd ht hc hp
+  | hold i t => exact step_hold hi i t ht
+  | look i t probeFree => exact step_look hi i t probeFree ht hc hp
+  | lease i t => exact step_lease hi i t ht
+
+/-! ## Start-up
+
+`serverInit` runs `AddPermanentClient` on symbolic addresses.  The kernel must never be asked to evaluate such a call,
+so `serverInit` is opened with `delta` and its matchers are eliminated by lemmas over abstract alternatives. -/
+
+/-- The client entries are installed one after the other, each successfully. -/
+def AddAll {σ : Type} (S : Store σ) (t : Int) : List Override → IPDB σ → IPDB σ → Prop
+  | [], d, d' => d' = d
+  | o :: rest, d, d' =>
+    (o.ip = none ∧ AddAll S t rest d d') ∨
+    ∃ ip d1 v, o.ip = some ip ∧ d.addPermanent S t (some ip) (sduid o.mac) = (d1, .ok v) ∧ AddAll S t rest d1 d'
+
+theorem m1_some {σ : Type} {r : IPDB σ × Except DbErr Unit} {d : IPDB σ}
+    (h : serverInit.match_1 (fun _ => Option (IPDB σ)) r (fun db' _ => some db') (fun _ _ => none) = some d) :
+    ∃ v, r = (d, .ok v) := by
+  obtain ⟨d', e⟩ := r
+  cases e with
+  | error x => cases h
+  | ok v =>
+    have h' : some d' = some d := h
+    cases h'
+    exact ⟨v, rfl⟩
+
+theorem m7_some {σ : Type} {o : Option (IPDB σ)} {F : IPDB σ → Option (IPDB σ)} {r : IPDB σ}
+    (h : serverInit.match_7 (fun _ => Option (IPDB σ)) o (fun _ => none) F = some r) : ∃ d, o = some d ∧ F d = some r := by
+  cases o with
+  | none => cases h
+  | some d => exact ⟨d, rfl, h⟩
+
+theorem m3_some {α : Type} {dyn : Option (Ip4 × Ip4)} {A : α} {B : Ip4 → Ip4 → α} {r : α}
+    (h : serverInit.match_3 (fun _ => α) dyn (fun _ => A) B = r) :
+    (dyn = none ∧ A = r) ∨ ∃ a b, dyn = some (a, b) ∧ B a b = r := by
+  cases dyn with
+  | none => exact Or.inl ⟨rfl, h⟩
+  | some ab => obtain ⟨a, b⟩ := ab; exact Or.inr ⟨a, b, rfl, h⟩
+
+theorem m5_some {σ : Type} {acc : Option (IPDB σ)} {oip : Option Ip4} {F : IPDB σ → Ip4 → Option (IPDB σ)} {r : IPDB σ}
+    (h : serverInit.match_5 (fun _ _ => Option (IPDB σ)) acc oip (fun _ => none) (fun d => some d) F = some r) :
+    ∃ d, acc = some d ∧ ((oip = none ∧ r = d) ∨ ∃ ip, oip = some ip ∧ F d ip = some r) := by
+  cases acc with
+  | none => cases h
+  | some d =>
+    refine ⟨d, rfl, ?_⟩
+    cases oip with
+    | none =>
+      have h' : some d = some r := h
+      cases h'; exact Or.inl ⟨rfl, rfl⟩
+    | some ip => exact Or.inr ⟨ip, rfl, h⟩
+
+theorem fold_some_gen {σ : Type} (S : Store σ) (t : Int) (f : Option (IPDB σ) → Override → Option (IPDB σ))
+    (hf : ∀ acc o d1, f acc o = some d1 → ∃ d, acc = some d ∧ ((o.ip = none ∧ d1 = d) ∨
+      ∃ ip v, o.ip = some ip ∧ d.addPermanent S t (some ip) (sduid o.mac) = (d1, .ok v))) (l : List Override) :
+    ∀ acc r, List.foldl f acc l = some r → ∃ d, acc = some d ∧ AddAll S t l d r := by
+  induction l with
+  | nil => intro acc r h; exact ⟨r, h, rfl⟩
+  | cons o rest ih =>
+    intro acc r h
+    rw [List.foldl_cons] at h
+    obtain ⟨d1, h1, h2⟩ := ih _ _ h
+    obtain ⟨d, hd, hc⟩ := hf _ _ _ h1
+    refine ⟨d, hd, ?_⟩
+    rcases hc with ⟨hn, rfl⟩ | ⟨ip, v, hip, hadd⟩
+    · exact Or.inl ⟨hn, h2⟩
+    · exact Or.inr ⟨ip, d1, v, hip, hadd, h2⟩
+
+/-- What a successful start-up consists of. -/
+theorem serverInit_some {σ : Type} (S : Store σ) (empty : σ) (c : SrvCfg) (base p : Nat) (dyn : Option (Ip4 × Ip4))
+    (staticOnly : Bool) (t : Int) (db0 : IPDB σ) (h : serverInit S empty c base p dyn staticOnly t = some db0) :
+    ∃ db1 db2 v,
+      ((dyn = none ∧ db1 = IPDB.new empty base p) ∨
+        ∃ a b w, dyn = some (a, b) ∧ (IPDB.new empty base p).setDynamicRange (some a) (some b) = (db1, .ok w)) ∧
+      AddAll S t c.overrides (if staticOnly = true then db1.disableDynamic else db1) db2 ∧
+      db2.addPermanent S t (some c.selfIp) (sduid c.selfMac) = (db0, .ok v) := by
+  delta serverInit at h
+  obtain ⟨db1, h1, h⟩ := m7_some h
+  obtain ⟨acc, h2, h⟩ := m7_some h
+  obtain ⟨v, h3⟩ := m1_some h
+  obtain ⟨d, hd, h2⟩ := fold_some_gen S t _ (by
+    intro acc o d1 hh
+    obtain ⟨d, hd, hc⟩ := m5_some hh
+    refine ⟨d, hd, ?_⟩
+    rcases hc with hc | ⟨ip, hip, hc⟩
+    · exact Or.inl hc
+    · obtain ⟨v, hv⟩ := m1_some hc
+      exact Or.inr ⟨ip, v, hip, hv⟩) _ _ _ h2
+  cases hd
+  refine ⟨db1, acc, v, ?_, h2, h3⟩
+  rcases m3_some h1 with ⟨hn, he⟩ | ⟨a, b, hab, he⟩
+  · cases he; exact Or.inl ⟨hn, rfl⟩
+  · obtain ⟨w, hw⟩ := m1_some he
+    exact Or.inr ⟨a, b, w, hab, hw⟩
+
+theorem setDynamicRange_ok {σ : Type} {db db1 : IPDB σ} {a b : Option Ip4} {w : Unit}
+    (h : db.setDynamicRange a b = (db1, .ok w)) :
+    ∃ bb ee, db.toUip a = .ok bb ∧ db.toUip b = .ok ee ∧ bb ≤ ee ∧ db1 = { db with dynFrom := bb, dynTo := ee } := by
+  unfold IPDB.setDynamicRange at h
+  generalize db.toUip a = r1 at h ⊢
+  generalize db.toUip b = r2 at h ⊢
+  cases r1 with
+  | error x => cases h
+  | ok bb =>
+    cases r2 with
+    | error x => cases h
+    | ok ee =>
+      refine ⟨bb, ee, rfl, rfl, ?_⟩
+      by_cases hgt : bb > ee
+      · simp only [hgt, if_true] at h; cases h
+      · simp only [hgt, if_false] at h
+        cases h
+        exact ⟨by omega, rfl⟩
+
+/-- The invariant while the permanent bindings are being installed: the table holds exactly the pairs `P`. -/
+structure PInv (b : Boot) (P : List (Nat × Duid)) (db : IPDB Table) (t : Int) : Prop where
+  nf : db.netFrom = (fromTo b.base b.p).1
+  nt : db.netTo = (fromTo b.base b.p).2
+  df : db.dynFrom = b.dynRange.1
+  dt : db.dynTo = b.dynRange.2
+  excl : db.s.Exclusive t
+  permIn : ∀ q ∈ P, ∃ x ∈ db.s, x.ip = q.1 ∧ x.duid = q.2 ∧ x.perm = true
+  permOnly : ∀ x ∈ db.s, x.perm = true ∧ (x.ip, x.duid) ∈ P
+  inNet : ∀ x ∈ db.s, db.netFrom ≤ x.ip ∧ x.ip ≤ db.netTo ∧ x.ip < 4294967296
+
+theorem PInv.add {b : Boot} {P : List (Nat × Duid)} {db db' : IPDB Table} {t : Int} (h : PInv b P db t)
+    {ip : Ip4} {d : Duid} {v : Unit} (ha : db.addPermanent tableStore t (some ip) d = (db', .ok v)) :
+    PInv b (P ++ [(ip.toNat, d)]) db' t ∧ db.netFrom ≤ ip.toNat ∧ ip.toNat ≤ db.netTo := by
+  rcases addPermanent_cases db t (some ip) d with hne | ⟨n, hn, h1, h2, he⟩
+  · rw [ha] at hne; exact absurd rfl hne
+  · rw [ha] at he
+    obtain ⟨e1, e2, e3⟩ := toUip_some hn
+    subst e1
+    have hdb : db' = { db with s := ⟨ip.toNat, d, 0, true⟩ :: db.s.filter (fun b => b.live t) } := by
+      injection he
+    subst hdb
+    refine ⟨⟨h.nf, h.nt, h.df, h.dt, ?_, ?_, ?_, ?_⟩, e2, e3⟩
+    · have := inject_exclusive ip.toNat d 0 true h.excl
+      rwa [inject_ok_eq h1 h2] at this
+    · intro q hq
+      rcases List.mem_append.1 hq with hq | hq
+      · obtain ⟨x, hx, x1, x2, x3⟩ := h.permIn q hq
+        exact ⟨x, List.mem_cons_of_mem _ (List.mem_filter.2 ⟨hx, perm_live x3 t⟩), x1, x2, x3⟩
+      · rw [List.mem_singleton.1 hq]
+        exact ⟨_, List.mem_cons_self, rfl, rfl, rfl⟩
+    · intro x hx
+      rcases List.mem_cons.1 hx with rfl | hx
+      · exact ⟨rfl, List.mem_append_right _ (List.mem_singleton.2 rfl)⟩
+      · obtain ⟨p1, p2⟩ := h.permOnly x (List.mem_filter.1 hx).1
+        exact ⟨p1, List.mem_append_left _ p2⟩
+    · intro x hx
+      rcases List.mem_cons.1 hx with rfl | hx
+      · exact ⟨e2, e3, Ip4.toNat_lt ip⟩
+      · exact h.inNet x (List.mem_filter.1 hx).1
+
+theorem PInv.addAll {b : Boot} {t : Int} (l : List Override) :
+    ∀ (P : List (Nat × Duid)) (d d' : IPDB Table), PInv b P d t → AddAll tableStore t l d d' →
+      PInv b (P ++ l.filterMap (fun o => o.ip.map fun ip => (ip.toNat, sduid o.mac))) d' t := by
+  induction l with
+  | nil =>
+    intro P d d' h ha
+    have : d' = d := ha
+    subst this
+    simpa using h
+  | cons o rest ih =>
+    intro P d d' h ha
+    rcases ha with ⟨hn, ha⟩ | ⟨ip, d1, v, hip, hadd, ha⟩
+    · have := ih P d d' h ha
+      rwa [List.filterMap_cons_none (by rw [hn]; rfl)]
+    · have h1 := (h.add hadd).1
+      have := ih _ d1 d' h1 ha
+      rw [List.filterMap_cons_some (b := (ip.toNat, sduid o.mac)) (by rw [hip]; rfl), List.append_cons]
+      exact this
+
+/-- The invariant holds when the server has started. -/
+theorem init_inv (c : SrvCfg) (b : Boot) (db0 : IPDB Table) (hb : b.base < 4294967296) (hp : b.p ≤ 32)
+    (h : serverInit tableStore ([] : Table) c b.base b.p b.dyn b.staticOnly b.t0 = some db0) :
+    Inv c b { db := db0 } b.t0 := by
+  obtain ⟨db1, db2, v, hr, hall, hself⟩ := serverInit_some _ _ _ _ _ _ _ _ _ h
+  -- the database before any binding is installed
+  have hN1 : (IPDB.new ([] : Table) b.base b.p).netFrom = (fromTo b.base b.p).1 := rfl
+  have hN2 : (IPDB.new ([] : Table) b.base b.p).netTo = (fromTo b.base b.p).2 := rfl
+  have hN3 : (IPDB.new ([] : Table) b.base b.p).dynFrom = (fromTo b.base b.p).1 := rfl
+  have hN4 : (IPDB.new ([] : Table) b.base b.p).dynTo = (fromTo b.base b.p).2 := rfl
+  have hN5 : (IPDB.new ([] : Table) b.base b.p).s = [] := rfl
+  generalize IPDB.new ([] : Table) b.base b.p = dbN at hr hN1 hN2 hN3 hN4 hN5
+  have h1 : db1.netFrom = (fromTo b.base b.p).1 ∧ db1.netTo = (fromTo b.base b.p).2 ∧ db1.s = [] ∧
+      (b.staticOnly = false → db1.dynFrom = b.dynRange.1 ∧ db1.dynTo = b.dynRange.2) ∧
+      (b.staticOnly = false → b.dyn ≠ none → b.dynRange.1 ≤ b.dynRange.2) := by
+    rcases hr with ⟨hn, rfl⟩ | ⟨x, y, w, hxy, hset⟩
+    · refine ⟨hN1, hN2, hN5, ?_, fun _ hh => absurd hn hh⟩
+      intro hso
+      simp only [Boot.dynRange, hso, hn, Bool.false_eq_true, if_false]
+      exact ⟨hN3, hN4⟩
+    · obtain ⟨bb, ee, u1, u2, hle, rfl⟩ := setDynamicRange_ok hset
+      obtain ⟨rfl, -, -⟩ := toUip_some u1
+      obtain ⟨rfl, -, -⟩ := toUip_some u2
+      refine ⟨hN1, hN2, hN5, ?_, ?_⟩
+      · intro hso
+        simp only [Boot.dynRange, hso, hxy, Bool.false_eq_true, if_false]
+        exact ⟨trivial, trivial⟩
+      · intro hso _
+        simp only [Boot.dynRange, hso, hxy, Bool.false_eq_true, if_false]
+        exact hle
+  obtain ⟨a1, a2, a3, a4, a5⟩ := h1
+  have hP0 : PInv b [] (if b.staticOnly = true then db1.disableDynamic else db1) b.t0 := by
+    cases hso : b.staticOnly with
+    | true =>
+      simp only [if_true]
+      refine ⟨a1, a2, ?_, ?_, ?_, ?_, ?_, ?_⟩
+      · simp [IPDB.disableDynamic, Boot.dynRange, hso]
+      · simp [IPDB.disableDynamic, Boot.dynRange, hso]
+      · show Table.Exclusive db1.s _
+        rw [a3]; intro x hx; cases hx
+      · intro q hq; cases hq
+      · intro x hx; have : x ∈ db1.s := hx; rw [a3] at this; cases this
+      · intro x hx; have : x ∈ db1.s := hx; rw [a3] at this; cases this
+    | false =>
+      simp only [Bool.false_eq_true, if_false]
+      refine ⟨a1, a2, (a4 hso).1, (a4 hso).2, ?_, ?_, ?_, ?_⟩
+      · rw [a3]; intro x hx; cases hx
+      · intro q hq; cases hq
+      · intro x hx; rw [a3] at hx; cases hx
+      · intro x hx; rw [a3] at hx; cases hx
+  have hP1 := PInv.addAll c.overrides [] _ _ hP0 hall
+  obtain ⟨hP2, hs1, hs2⟩ := hP1.add hself
+  rw [List.nil_append] at hP2
+  have hrng : b.dynRange.1 ≤ b.dynRange.2 ∧ b.dynRange.2 < 4294967296 := by
+    have hnet : (fromTo b.base b.p).1 ≤ (fromTo b.base b.p).2 := by
+      rw [← hP1.nf, ← hP1.nt]; omega
+    have hlt := fromTo_lt b.base b.p hb hp
+    cases hso : b.staticOnly with
+    | true => simp [Boot.dynRange, hso]
+    | false =>
+      cases hd : b.dyn with
+      | none =>
+        simp only [Boot.dynRange, hso, hd, Bool.false_eq_true, if_false]
+        exact ⟨hnet, hlt⟩
+      | some xy =>
+        have := a5 hso (by rw [hd]; simp)
+        refine ⟨this, ?_⟩
+        obtain ⟨x, y⟩ := xy
+        simp only [Boot.dynRange, hso, hd, Bool.false_eq_true, if_false]
+        exact Ip4.toNat_lt y
+  refine ⟨⟨hP2.nf, hP2.nt, hP2.df, hP2.dt, hrng, hP2.excl, hP2.permIn, fun x hx _ => (hP2.permOnly x hx).2, ?_, hP2.inNet⟩,
+    ?_, ?_⟩
+  · intro x hx hp
+    rw [(hP2.permOnly x hx).1] at hp; cases hp
+  · intro p hp; cases hp
+  · refine ⟨?_, ?_, ?_, ?_⟩
+    · intro s hs; cases hs
+    · intro s hs; cases hs
+    · intro s hs; cases hs
+    · intro _ s hs; cases hs
+
+/-! ## Runs -/
+
+theorem evmono_tail {e : Ev} {rest : List Ev} (hm : EvMonotone (e :: rest)) :
+    e.ClockOk ∧ (∀ x ∈ rest.head?, e.tEnd ≤ x.t) ∧ EvMonotone rest := by
+  cases rest with
+  | nil => exact ⟨hm, by simp, trivial⟩
+  | cons y r =>
+    simp only [EvMonotone] at hm
+    exact ⟨hm.1, by simp [hm.2.1], hm.2.2⟩
+
+/-- The clock after a run that started at `now`. -/
+def endClock (now : Int) (evs : List Ev) : Int :=
+  match evs.getLast? with
+  | some e => e.tEnd
+  | none => now
+
+theorem endClock_cons (now : Int) (e : Ev) (rest : List Ev) : endClock now (e :: rest) = endClock e.tEnd rest := by
+  cases rest with
+  | nil => rfl
+  | cons y r =>
+    simp only [endClock, List.getLast?_cons_cons]
+    cases hl : (y :: r).getLast? with
+    | none => simp at hl
+    | some z => rfl
+
+theorem run_inv {c : SrvCfg} {b : Boot} (evs : List Ev) :
+    ∀ (sys : Sys Table) (now : Int), Inv c b sys now → EvMonotone evs → (∀ e ∈ evs.head?, now ≤ e.t) →
+      (∀ e ∈ evs, Ev.PermOk b.dynRange.1 b.dynRange.2 e) → Inv c b (Sys.run tableStore c sys evs) (endClock now evs) := by
+  induction evs with
+  | nil => intro sys now hi _ _ _; exact hi
+  | cons e rest ih =>
+    intro sys now hi hm h0 hp
+    obtain ⟨hc, hh, hm'⟩ := evmono_tail hm
+    have hstep := step_inv hi e (h0 e (by simp)) hc (hp e List.mem_cons_self)
+    rw [endClock_cons]
+    exact ih _ _ hstep hm' hh (fun x hx => hp x (List.mem_cons_of_mem _ hx))
+
+theorem reach_inv {c : SrvCfg} {b : Boot} {evs : List Ev} {sys : Sys Table} (h : ReachableT c b evs sys) :
+    Inv c b sys (lastClock b evs) := by
+  obtain ⟨hb, hp, db0, hinit, hm, h0, hperm, rfl⟩ := h
+  exact run_inv evs _ _ (init_inv c b db0 hb hp hinit) hm h0 hperm
+
+/-! ## C01 -/
+
+theorem no_double_lease (c : SrvCfg) (b : Boot) (evs : List Ev) (sys : Sys Table) (h : ReachableT c b evs sys)
+    (hl : 0 ≤ c.leaseNs) :
+    ∀ s₁ ∈ sys.sent, ∀ s₂ ∈ sys.sent, s₁.kind ≠ .nak → s₂.kind ≠ .nak → s₁.addr = s₂.addr → s₁.duid ≠ s₂.duid →
+      s₁.t ≤ s₂.t → s₁.t + s₁.ttl c < s₂.t :=
+  (reach_inv h).sent.nd hl
+
+theorem grant_is_update (c : SrvCfg) (b : Boot) (evs : List Ev) (sys : Sys Table) (h : ReachableT c b evs sys) :
+    ∀ s ∈ sys.sent, s.kind ≠ .nak →
+      (s.t, DbOp.updateClient (some (Ip4.ofNat s.addr)) s.duid (s.ttl c)) ∈ sys.calls :=
+  (reach_inv h).sent.cl
+
+/-! ## C02, C03 -/
+
+theorem override_mem {c : SrvCfg} {o : Override} {ip : Ip4} (ho : o ∈ c.overrides) (hip : o.ip = some ip) :
+    (ip.toNat, sduid o.mac) ∈ permPairs c :=
+  List.mem_append_left _ (List.mem_filterMap.2 ⟨o, ho, by rw [hip]; rfl⟩)
+
+theorem self_mem (c : SrvCfg) : (c.selfIp.toNat, sduid c.selfMac) ∈ permPairs c :=
+  List.mem_append_right _ (List.mem_singleton.2 rfl)
+
+theorem perm_mem_cases {c : SrvCfg} {q : Nat × Duid} (hq : q ∈ permPairs c) :
+    (∃ o ∈ c.overrides, ∃ ip, o.ip = some ip ∧ q = (ip.toNat, sduid o.mac)) ∨ q = (c.selfIp.toNat, sduid c.selfMac) := by
+  rcases List.mem_append.1 hq with hq | hq
+  · obtain ⟨o, ho, hoq⟩ := List.mem_filterMap.1 hq
+    cases hip : o.ip with
+    | none => rw [hip] at hoq; cases hoq
+    | some ip =>
+      rw [hip] at hoq
+      have : (ip.toNat, sduid o.mac) = q := by simpa using hoq
+      exact Or.inl ⟨o, ho, ip, hip, this.symm⟩
+  · exact Or.inr (List.mem_singleton.1 hq)
+
+/-- A permanent identity is a hardware-address identity. -/
+theorem perm_duid_shape {c : SrvCfg} {q : Nat × Duid} (hq : q ∈ permPairs c) : ∃ m, q.2 = sduid m := by
+  rcases perm_mem_cases hq with ⟨o, -, ip, -, rfl⟩ | rfl
+  · exact ⟨o.mac, rfl⟩
+  · exact ⟨c.selfMac, rfl⟩
+
+/-- A handler that uses a permanent identity uses the one of its own hardware address. -/
+theorem duid_of_perm {c : SrvCfg} {rx : Rx} {d : Duid} (hd : DuidOk c rx d) {a : Nat} (hq : (a, d) ∈ permPairs c) :
+    d = sduid rx.msg.chaddr := by
+  rcases hd.2 with h | ⟨-, hp, -⟩
+  · exact h
+  · obtain ⟨m, hm⟩ := perm_duid_shape hq
+    simp only at hm
+    rw [hm, sduid_prefix] at hp; cases hp
+
+/-- The classification of a grant: a static reservation of the sender, or a dynamic address. -/
+theorem grant_class {c : SrvCfg} {b : Boot} {db : IPDB Table} {t : Int} (hdb : DbInv c b db t) {s : Sent}
+    (so : SentOk c b s) :
+    s.addr ≠ c.selfIp.toNat ∧
+    ((∃ o ∈ c.overrides, o.mac = s.rx.msg.chaddr ∧ o.ip = some (Ip4.ofNat s.addr) ∧ (s.addr, s.duid) ∈ permPairs c) ∨
+     ((∀ q ∈ permPairs c, q.1 ≠ s.addr ∧ q.2 ≠ s.duid) ∧ DynOk b s.addr)) := by
+  rcases so.cls with hq | ⟨hno, hdyn⟩
+  · have hd := duid_of_perm so.duid hq
+    have hnself : s.addr ≠ c.selfIp.toNat := by
+      intro he
+      have := hdb.pairs_unique hq (self_mem c) (Or.inl he)
+      have h2 : s.duid = sduid c.selfMac := congrArg Prod.snd this
+      rw [hd] at h2
+      exact so.duid.1 (sduid_injective _ _ h2)
+    refine ⟨hnself, Or.inl ?_⟩
+    rcases perm_mem_cases hq with ⟨o, ho, ip, hip, he⟩ | he
+    · have h1 : s.addr = ip.toNat := congrArg Prod.fst he
+      have h2 : s.duid = sduid o.mac := congrArg Prod.snd he
+      rw [hd] at h2
+      refine ⟨o, ho, (sduid_injective _ _ h2).symm, ?_, hq⟩
+      rw [h1, Ip4.ofNat_toNat]; exact hip
+    · exact absurd (congrArg Prod.fst he) hnself
+  · exact ⟨fun he => (hno _ (self_mem c)).1 he.symm, Or.inr ⟨hno, hdyn⟩⟩
+
+theorem handed_out_allowed (c : SrvCfg) (b : Boot) (evs : List Ev) (sys : Sys Table) (h : ReachableT c b evs sys) :
+    ∀ s ∈ sys.sent, s.kind ≠ .nak →
+      sys.db.netFrom ≤ s.addr ∧ s.addr ≤ sys.db.netTo ∧ s.addr ≠ c.selfIp.toNat ∧
+      ((¬ (sys.db.dynTo = 0 ∧ sys.db.dynFrom = 0) ∧ sys.db.dynFrom ≤ s.addr ∧ s.addr ≤ sys.db.dynTo) ∨
+       ∃ o ∈ c.overrides, o.mac = s.rx.msg.chaddr ∧ o.ip = some (Ip4.ofNat s.addr)) := by
+  have hi := reach_inv h
+  intro s hs hk
+  have so := hi.sent.ok s hs hk
+  obtain ⟨h1, h2⟩ := grant_class hi.db so
+  rw [hi.db.nf, hi.db.nt, hi.db.df, hi.db.dt]
+  refine ⟨so.net.1, so.net.2.1, h1, ?_⟩
+  rcases h2 with ⟨o, ho, hm, hip, -⟩ | ⟨-, hdyn⟩
+  · exact Or.inr ⟨o, ho, hm, hip⟩
+  · exact Or.inl hdyn
+
+theorem static_only_blocks_dynamic (c : SrvCfg) (b : Boot) (evs : List Ev) (sys : Sys Table) (h : ReachableT c b evs sys)
+    (hso : b.staticOnly = true) :
+    ∀ s ∈ sys.sent, s.kind ≠ .nak → ∃ o ∈ c.overrides, o.mac = s.rx.msg.chaddr ∧ o.ip = some (Ip4.ofNat s.addr) := by
+  have hi := reach_inv h
+  intro s hs hk
+  obtain ⟨-, h2⟩ := grant_class hi.db (hi.sent.ok s hs hk)
+  rcases h2 with ⟨o, ho, hm, hip, -⟩ | ⟨-, hdyn⟩
+  · exact ⟨o, ho, hm, hip⟩
+  · exfalso
+    apply hdyn.1
+    simp [Boot.dynRange, hso]
+
+theorem ranges_fixed (c : SrvCfg) (b : Boot) (evs : List Ev) (sys : Sys Table) (h : ReachableT c b evs sys) :
+    (sys.db.netFrom, sys.db.netTo) = fromTo b.base b.p ∧
+    (sys.db.dynFrom, sys.db.dynTo) = b.dynRange := by
+  have hi := reach_inv h
+  exact ⟨Prod.ext hi.db.nf hi.db.nt, Prod.ext hi.db.df hi.db.dt⟩
+
+theorem static_exclusive (c : SrvCfg) (b : Boot) (evs : List Ev) (sys : Sys Table) (h : ReachableT c b evs sys) :
+    ∀ s ∈ sys.sent, s.kind ≠ .nak → ∀ o ∈ c.overrides, ∀ ip, o.ip = some ip → s.addr = ip.toNat →
+      s.rx.msg.chaddr = o.mac := by
+  have hi := reach_inv h
+  intro s hs hk o ho ip hip ha
+  have so := hi.sent.ok s hs hk
+  have hq := override_mem ho hip
+  rcases so.cls with hs' | ⟨hno, -⟩
+  · have := hi.db.pairs_unique hs' hq (Or.inl ha)
+    have h2 : s.duid = sduid o.mac := congrArg Prod.snd this
+    rw [duid_of_perm so.duid hs'] at h2
+    exact sduid_injective _ _ h2
+  · exact absurd ha.symm (hno _ hq).1
+
+theorem static_only_address (c : SrvCfg) (b : Boot) (evs : List Ev) (sys : Sys Table) (h : ReachableT c b evs sys) :
+    ∀ s ∈ sys.sent, s.kind ≠ .nak → ∀ o ∈ c.overrides, ∀ ip, o.ip = some ip → s.rx.msg.chaddr = o.mac →
+      s.addr = ip.toNat := by
+  have hi := reach_inv h
+  intro s hs hk o ho ip hip hm
+  have so := hi.sent.ok s hs hk
+  have hq := override_mem ho hip
+  have hd : s.duid = sduid o.mac := by
+    rcases so.duid.2 with hd | ⟨-, -, hno⟩
+    · rw [hd, hm]
+    · exact absurd (by rw [hm]) (hno _ hq)
+  rcases so.cls with hs' | ⟨hno, -⟩
+  · have := hi.db.pairs_unique hs' hq (Or.inr hd)
+    exact congrArg Prod.fst this
+  · exact absurd hd.symm (hno _ hq).2
+
+/-! ## C03: a static reservation is always offered
+
+`handle` is opened with `delta`; its matchers are eliminated by the equations below (abstract alternatives), so that
+the kernel never evaluates a database call on a symbolic address. -/
+
+theorem todo_match_discover {α : Type} {x : Todo} (hx : x = .discover) (A : Unit → α) (B : Unit → α) (C : Ip4 → α) :
+    instReprTodo.repr.match_1 (fun _ => α) x A B C = B () := by
+  subst hx; rfl
+
+theorem nat_match_ok {α : Type} {x : Except DbErr Nat} {a : Nat} (hx : x = .ok a) (E : DbErr → α) (K : Nat → α) :
+    handle.match_3 (fun _ => α) x E K = K a := by
+  subst hx; rfl
+
+theorem unit_match_ok {α : Type} {x : Except DbErr Unit} {v : Unit} (hx : x = .ok v) (E : DbErr → α) (K : Unit → α) :
+    handle.match_1 (fun _ => α) x E K = K v := by
+  subst hx; rfl
+
+/-- The DISCOVER path of the sequential handler when every step succeeds. -/
+theorem handle_discover {σ : Type} (S : Store σ) (c : SrvCfg) (db : IPDB σ) (rx : Rx) (o : HOracle)
+    {db1 db2 db3 : IPDB σ} {duid : Duid} {a : Nat} {v : Unit}
+    (hg : getDuid S db o.t0 rx.msg.chaddr (decodeOptions rx.msg.options).clientIdentifier = (db1, duid))
+    (htodo : todo c db1 rx = .discover)
+    (hf : db1.findIP S o.t1 (decodeOptions rx.msg.options).requestedIP duid o.perm o.iters = (db2, .ok a))
+    (hu : db2.updateClient S o.t2 (some (Ip4.ofNat a)) duid offerHoldNs = (db3, .ok v)) :
+    handle S c db rx o = (db3, some (leaseFrame c .offer rx.msg (Ip4.ofNat a))) := by
+  delta handle
+  refine Eq.trans (todo_match_discover ?h1 _ _ _) ?_
+  case h1 => rw [hg]; exact htodo
+  refine Eq.trans (nat_match_ok (a := a) ?h2 _ _) ?_
+  case h2 => rw [hg, hf]
+  refine Eq.trans (unit_match_ok (v := v) ?h3 _ _) ?_
+  case h3 => rw [hg, hf, hu]
+  rw [hg, hf, hu]
+
+theorem pair_of_snd {α β : Type} (x : α × β) (b : β) (h : x.2 = b) : x = (x.1, b) := by
+  cases x; cases h; rfl
+
+theorem toUip_ok {σ : Type} {db : IPDB σ} {i : Ip4} (h1 : db.netFrom ≤ i.toNat) (h2 : i.toNat ≤ db.netTo) :
+    db.toUip (some i) = .ok i.toNat := by
+  unfold IPDB.toUip
+  simp only
+  rw [if_neg (by omega)]
+
+theorem todo_discover {σ : Type} {c : SrvCfg} {rx : Rx} (hwf : WellFormedDiscover c rx) (db : IPDB σ) :
+    todo c db rx = .discover := by
+  obtain ⟨h1, h2, h3, h4, h5⟩ := hwf
+  unfold todo
+  simp only
+  rw [if_neg (Ne.symm h4), if_neg h5, if_pos h1, if_neg (fun hne => hne h2), if_neg (fun hne => hne h3)]
+
+theorem static_always_offered (c : SrvCfg) (b : Boot) (evs : List Ev) (sys : Sys Table) (h : ReachableT c b evs sys)
+    (rx : Rx) (orc : HOracle) (o : Override) (ip : Ip4) (ho : o ∈ c.overrides) (hip : o.ip = some ip)
+    (hmac : rx.msg.chaddr = o.mac) (hwf : WellFormedDiscover c rx) (hck : HOracle.ClockOk orc (lastClock b evs)) :
+    (handle tableStore c sys.db rx orc).2 = some (leaseFrame c .offer rx.msg ip) := by
+  have hi := reach_inv h
+  obtain ⟨k0, k1, -, -, -, k2⟩ := hck
+  have hq := override_mem ho hip
+  have hd0 := hi.db.mono k0
+  have hd1 := hd0.mono k1
+  have hd2 := hd1.mono k2
+  obtain ⟨x0, l0, -, -, -, -⟩ := hd0.perm_liveDuid hq
+  obtain ⟨x1, l1, m1, i1, -, -⟩ := hd1.perm_liveDuid hq
+  obtain ⟨x2, l2, m2, i2, d2, p2⟩ := hd2.perm_liveDuid hq
+  simp only at l0 l1 l2 i1 i2 d2
+  have hg : getDuid tableStore sys.db orc.t0 rx.msg.chaddr (decodeOptions rx.msg.options).clientIdentifier =
+      (sys.db, sduid o.mac) := by
+    refine Prod.ext (getDuid_table_fst _ _ _ _) ?_
+    rw [hmac]
+    exact getDuid_table_found _ _ _ _ x0 l0
+  have hf : sys.db.findIP tableStore orc.t1 (decodeOptions rx.msg.options).requestedIP (sduid o.mac) orc.perm orc.iters =
+      (sys.db, .ok ip.toNat) := by
+    refine Prod.ext (findIP_table_fst _ _ _ _ _ _) ?_
+    rw [find_existing _ _ _ _ _ _ x1 l1, i1]
+  have hok : (sys.db.updateClient tableStore orc.t2 (some (Ip4.ofNat ip.toNat)) (sduid o.mac) offerHoldNs).2 = .ok () := by
+    rw [update_ok_iff _ _ _ _ _ hd2.excl, Ip4.ofNat_toNat]
+    have hn := hd2.inNet x2 m2
+    rw [i2] at hn
+    exact ⟨ip.toNat, toUip_ok hn.1 hn.2.1, Or.inl ⟨x2, m2, perm_live p2 _, i2, d2⟩⟩
+  have hu : sys.db.updateClient tableStore orc.t2 (some (Ip4.ofNat ip.toNat)) (sduid o.mac) offerHoldNs =
+      ((sys.db.updateClient tableStore orc.t2 (some (Ip4.ofNat ip.toNat)) (sduid o.mac) offerHoldNs).1, .ok ()) :=
+    pair_of_snd _ _ hok
+  rw [handle_discover tableStore c sys.db rx orc hg (todo_discover hwf _) hf hu, Ip4.ofNat_toNat]
+
+/-! ## C01: the concrete server refines the server over the reference table -/
+
+section Refine
+variable {σ₁ σ₂ : Type} {S₁ : Store σ₁} {S₂ : Store σ₂} {Rel : σ₁ → σ₂ → Int → Prop}
+
+theorem dbRel_mono (sim : StoreSim S₁ S₂ Rel) {db1 : IPDB σ₁} {db2 : IPDB σ₂} {t t' : Int} (h : DbRel Rel db1 db2 t)
+    (htt : t ≤ t') : DbRel Rel db1 db2 t' :=
+  ⟨h.1, h.2.1, h.2.2.1, h.2.2.2.1, sim.mono _ _ _ _ h.2.2.2.2 htt⟩
+
+theorem lookupByDuid_sim (sim : StoreSim S₁ S₂ Rel) {db1 : IPDB σ₁} {db2 : IPDB σ₂} {t : Int} (h : DbRel Rel db1 db2 t)
+    (d : Duid) :
+    (db1.lookupByDuid S₁ t d).2 = (db2.lookupByDuid S₂ t d).2 ∧
+      DbRel Rel (db1.lookupByDuid S₁ t d).1 (db2.lookupByDuid S₂ t d).1 t := by
+  have := step_sim sim h (.lookupByDuid d) trivial
+  exact ⟨DbRes.addr.inj this.1, this.2⟩
+
+theorem addPermanent_sim (sim : StoreSim S₁ S₂ Rel) {db1 : IPDB σ₁} {db2 : IPDB σ₂} {t : Int} (h : DbRel Rel db1 db2 t)
+    (ip : Option Ip4) (d : Duid) :
+    (db1.addPermanent S₁ t ip d).2 = (db2.addPermanent S₂ t ip d).2 ∧
+      DbRel Rel (db1.addPermanent S₁ t ip d).1 (db2.addPermanent S₂ t ip d).1 t := by
+  have := step_sim sim h (.addPermanent ip d) trivial
+  exact ⟨DbRes.unit.inj this.1, this.2⟩
+
+theorem updateClient_sim (sim : StoreSim S₁ S₂ Rel) {db1 : IPDB σ₁} {db2 : IPDB σ₂} {t : Int} (h : DbRel Rel db1 db2 t)
+    (ip : Option Ip4) (d : Duid) (ttl : Int) :
+    (db1.updateClient S₁ t ip d ttl).2 = (db2.updateClient S₂ t ip d ttl).2 ∧
+      DbRel Rel (db1.updateClient S₁ t ip d ttl).1 (db2.updateClient S₂ t ip d ttl).1 t := by
+  have := step_sim sim h (.updateClient ip d ttl) trivial
+  exact ⟨DbRes.unit.inj this.1, this.2⟩
+
+theorem setDynamicRange_sim (sim : StoreSim S₁ S₂ Rel) {db1 : IPDB σ₁} {db2 : IPDB σ₂} {t : Int} (h : DbRel Rel db1 db2 t)
+    (x y : Option Ip4) :
+    (db1.setDynamicRange x y).2 = (db2.setDynamicRange x y).2 ∧
+      DbRel Rel (db1.setDynamicRange x y).1 (db2.setDynamicRange x y).1 t := by
+  have := step_sim sim h (.setDynamicRange x y) trivial
+  exact ⟨DbRes.unit.inj this.1, this.2⟩
+
+/-- Both absent, or both present and related. -/
+def OptRel {α β : Type} (P : α → β → Prop) : Option α → Option β → Prop
+  | none, none => True
+  | some a, some b => P a b
+  | _, _ => False
+
+theorem OptRel.isSome_eq {α β : Type} {P : α → β → Prop} {a : Option α} {b : Option β} (h : OptRel P a b) :
+    a.isSome = b.isSome := by
+  cases a <;> cases b <;> first | rfl | exact absurd h id
+
+theorem m1_rel {P : IPDB σ₁ → IPDB σ₂ → Prop} {r1 : IPDB σ₁ × Except DbErr Unit} {r2 : IPDB σ₂ × Except DbErr Unit}
+    (h : r1.2 = r2.2 ∧ P r1.1 r2.1) :
+    OptRel P (serverInit.match_1 (fun _ => Option (IPDB σ₁)) r1 (fun db' _ => some db') (fun _ _ => none))
+      (serverInit.match_1 (fun _ => Option (IPDB σ₂)) r2 (fun db' _ => some db') (fun _ _ => none)) := by
+  obtain ⟨d1, x1⟩ := r1
+  obtain ⟨d2, x2⟩ := r2
+  obtain ⟨hx, hp⟩ := h
+  simp only at hx hp
+  subst hx
+  cases x1 with
+  | error e => trivial
+  | ok v => exact hp
+
+theorem m7_rel {P Q : IPDB σ₁ → IPDB σ₂ → Prop} {o1 : Option (IPDB σ₁)} {o2 : Option (IPDB σ₂)}
+    {F1 : IPDB σ₁ → Option (IPDB σ₁)} {F2 : IPDB σ₂ → Option (IPDB σ₂)} (ho : OptRel P o1 o2)
+    (hF : ∀ d1 d2, P d1 d2 → OptRel Q (F1 d1) (F2 d2)) :
+    OptRel Q (serverInit.match_7 (fun _ => Option (IPDB σ₁)) o1 (fun _ => none) F1)
+      (serverInit.match_7 (fun _ => Option (IPDB σ₂)) o2 (fun _ => none) F2) := by
+  cases o1 <;> cases o2
+  · trivial
+  · exact absurd ho id
+  · exact absurd ho id
+  · exact hF _ _ ho
+
+theorem m3_rel {Q : IPDB σ₁ → IPDB σ₂ → Prop} (dyn : Option (Ip4 × Ip4)) {A1 : Option (IPDB σ₁)} {A2 : Option (IPDB σ₂)}
+    {B1 : Ip4 → Ip4 → Option (IPDB σ₁)} {B2 : Ip4 → Ip4 → Option (IPDB σ₂)} (hA : OptRel Q A1 A2)
+    (hB : ∀ a b, OptRel Q (B1 a b) (B2 a b)) :
+    OptRel Q (serverInit.match_3 (fun _ => Option (IPDB σ₁)) dyn (fun _ => A1) B1)
+      (serverInit.match_3 (fun _ => Option (IPDB σ₂)) dyn (fun _ => A2) B2) := by
+  cases dyn with
+  | none => exact hA
+  | some ab => obtain ⟨a, b⟩ := ab; exact hB a b
+
+theorem m5_rel {P : IPDB σ₁ → IPDB σ₂ → Prop} {acc1 : Option (IPDB σ₁)} {acc2 : Option (IPDB σ₂)} (oip : Option Ip4)
+    {F1 : IPDB σ₁ → Ip4 → Option (IPDB σ₁)} {F2 : IPDB σ₂ → Ip4 → Option (IPDB σ₂)} (ho : OptRel P acc1 acc2)
+    (hF : ∀ d1 d2 ip, P d1 d2 → OptRel P (F1 d1 ip) (F2 d2 ip)) :
+    OptRel P (serverInit.match_5 (fun _ _ => Option (IPDB σ₁)) acc1 oip (fun _ => none) (fun d => some d) F1)
+      (serverInit.match_5 (fun _ _ => Option (IPDB σ₂)) acc2 oip (fun _ => none) (fun d => some d) F2) := by
+  cases acc1 <;> cases acc2
+  · trivial
+  · exact absurd ho id
+  · exact absurd ho id
+  · cases oip with
+    | none => exact ho
+    | some ip => exact hF _ _ ip ho
+
+theorem fold_rel {α β γ : Type} {P : α → β → Prop} (f1 : Option α → γ → Option α) (f2 : Option β → γ → Option β)
+    (hf : ∀ a1 a2 o, OptRel P a1 a2 → OptRel P (f1 a1 o) (f2 a2 o)) (l : List γ) :
+    ∀ a1 a2, OptRel P a1 a2 → OptRel P (List.foldl f1 a1 l) (List.foldl f2 a2 l) := by
+  induction l with
+  | nil => intro a1 a2 h; exact h
+  | cons o rest ih => intro a1 a2 h; exact ih _ _ (hf _ _ o h)
+
+/-- Start-up succeeds on both stores or on neither, and yields related databases. -/
+theorem serverInit_sim (sim : StoreSim S₁ S₂ Rel) {e1 : σ₁} {e2 : σ₂} {t : Int} (he : Rel e1 e2 t) (c : SrvCfg)
+    (base p : Nat) (dyn : Option (Ip4 × Ip4)) (staticOnly : Bool) :
+    OptRel (fun d1 d2 => DbRel Rel d1 d2 t) (serverInit S₁ e1 c base p dyn staticOnly t)
+      (serverInit S₂ e2 c base p dyn staticOnly t) := by
+  have hnew : DbRel Rel (IPDB.new e1 base p) (IPDB.new e2 base p) t := ⟨rfl, rfl, rfl, rfl, he⟩
+  delta serverInit
+  refine m7_rel (P := fun d1 d2 => DbRel Rel d1 d2 t) ?_ ?_
+  · refine m3_rel dyn hnew ?_
+    intro a b
+    exact m1_rel (setDynamicRange_sim sim hnew (some a) (some b))
+  · intro d1 d2 hd
+    have hd' : DbRel Rel (if staticOnly = true then d1.disableDynamic else d1)
+        (if staticOnly = true then d2.disableDynamic else d2) t := by
+      cases staticOnly with
+      | false => exact hd
+      | true => exact ⟨hd.1, hd.2.1, rfl, rfl, hd.2.2.2.2⟩
+    generalize (if staticOnly = true then d1.disableDynamic else d1) = d1' at hd' ⊢
+    generalize (if staticOnly = true then d2.disableDynamic else d2) = d2' at hd' ⊢
+    refine m7_rel (P := fun d1 d2 => DbRel Rel d1 d2 t) ?_ ?_
+    · refine fold_rel _ _ ?_ c.overrides _ _ hd'
+      intro a1 a2 o ha
+      refine m5_rel o.ip ha ?_
+      intro x1 x2 ip hx
+      exact m1_rel (addPermanent_sim sim hx (some ip) (sduid o.mac))
+    · intro x1 x2 hx
+      exact m1_rel (addPermanent_sim sim hx (some c.selfIp) (sduid c.selfMac))
+
+end Refine
+
+section RefineSys
+variable {σ₁ σ₂ : Type} {S₁ : Store σ₁} {S₂ : Store σ₂} {Rel : σ₁ → σ₂ → Int → Prop}
+
+/-- Two systems over related stores: same handlers in flight, same replies, same call log. -/
+structure SysRel (Rel : σ₁ → σ₂ → Int → Prop) (s1 : Sys σ₁) (s2 : Sys σ₂) (t : Int) : Prop where
+  db : DbRel Rel s1.db s2.db t
+  pend : s1.pend = s2.pend
+  sent : s1.sent = s2.sent
+  calls : s1.calls = s2.calls
+
+theorem SysRel.mono (sim : StoreSim S₁ S₂ Rel) {s1 : Sys σ₁} {s2 : Sys σ₂} {t t' : Int} (h : SysRel Rel s1 s2 t)
+    (htt : t ≤ t') : SysRel Rel s1 s2 t' :=
+  ⟨dbRel_mono sim h.db htt, h.pend, h.sent, h.calls⟩
+
+/-! Equations for the remaining matchers of `Sys.step` (abstract alternatives, variable discriminant). -/
+
+theorem recv_match {σ : Type} {x : R (Option Rx)} {rx : Rx} (hx : x = .ok (some rx)) (F : Rx → Sys σ)
+    (g : R (Option Rx) → Sys σ) : Sys.step.match_3 (fun _ => Sys σ) x F g = F rx := by
+  subst hx; rfl
+
+theorem recv_match_other {σ : Type} {x : R (Option Rx)} (hx : ∀ rx, x ≠ .ok (some rx)) (F : Rx → Sys σ)
+    (g : R (Option Rx) → Sys σ) : Sys.step.match_3 (fun _ => Sys σ) x F g = g x := by
+  cases x with
+  | error e => rfl
+  | ok o =>
+    cases o with
+    | none => rfl
+    | some rx => exact absurd rfl (hx rx)
+
+theorem find_match {σ : Type} {o : Option Pending} {rx : Rx} {duid : Duid} (ho : o = some (.a1 rx duid))
+    (F : Rx → Duid → Sys σ) (g : Option Pending → Sys σ) : Sys.step.match_9 (fun _ => Sys σ) o F g = F rx duid := by
+  subst ho; rfl
+
+theorem find_match_other {σ : Type} {o : Option Pending} (ho : ∀ rx duid, o ≠ some (.a1 rx duid))
+    (F : Rx → Duid → Sys σ) (g : Option Pending → Sys σ) : Sys.step.match_9 (fun _ => Sys σ) o F g = g o := by
+  cases o with
+  | none => rfl
+  | some p =>
+    cases p with
+    | a1 rx duid => exact absurd rfl (ho rx duid)
+    | _ => rfl
+
+theorem look_match {σ : Type} {o : Option Pending} {rx : Rx} {duid : Duid} {want : Ip4} (ho : o = some (.b1 rx duid want))
+    (F : Rx → Duid → Ip4 → Sys σ) (g : Option Pending → Sys σ) :
+    Sys.step.match_17 (fun _ => Sys σ) o F g = F rx duid want := by
+  subst ho; rfl
+
+theorem look_match_other {σ : Type} {o : Option Pending} (ho : ∀ rx duid want, o ≠ some (.b1 rx duid want))
+    (F : Rx → Duid → Ip4 → Sys σ) (g : Option Pending → Sys σ) : Sys.step.match_17 (fun _ => Sys σ) o F g = g o := by
+  cases o with
+  | none => rfl
+  | some p =>
+    cases p with
+    | b1 rx duid want => exact absurd rfl (ho rx duid want)
+    | _ => rfl
+
+theorem todo_congr {c : SrvCfg} {db1 : IPDB σ₁} {db2 : IPDB σ₂} (h1 : db1.netFrom = db2.netFrom)
+    (h2 : db1.netTo = db2.netTo) (rx : Rx) : todo c db1 rx = todo c db2 rx := by
+  have hm : ∀ x, db1.inManagedRange x = db2.inManagedRange x := by
+    intro x
+    unfold IPDB.inManagedRange IPDB.toUip
+    rw [h1, h2]
+  unfold todo
+  simp only [hm]
+
+theorem getDuid_sim (sim : StoreSim S₁ S₂ Rel) {db1 : IPDB σ₁} {db2 : IPDB σ₂} {t : Int} (h : DbRel Rel db1 db2 t)
+    (hw cid : Bytes) :
+    (getDuid S₁ db1 t hw cid).2 = (getDuid S₂ db2 t hw cid).2 ∧
+      DbRel Rel (getDuid S₁ db1 t hw cid).1 (getDuid S₂ db2 t hw cid).1 t := by
+  have hl := lookupByDuid_sim sim h (sduid hw)
+  unfold getDuid
+  generalize db1.lookupByDuid S₁ t (sduid hw) = l1 at hl ⊢
+  generalize db2.lookupByDuid S₂ t (sduid hw) = l2 at hl ⊢
+  obtain ⟨d1, r1⟩ := l1
+  obtain ⟨d2, r2⟩ := l2
+  obtain ⟨hr, hd⟩ := hl
+  simp only at hr hd
+  subst hr
+  cases r1 with
+  | ok a => exact ⟨rfl, hd⟩
+  | error e =>
+    simp only
+    split
+    · exact ⟨rfl, hd⟩
+    · exact ⟨rfl, hd⟩
+
+theorem sim_recv (sim : StoreSim S₁ S₂ Rel) (c : SrvCfg) {s1 : Sys σ₁} {s2 : Sys σ₂} {now : Int}
+    (h : SysRel Rel s1 s2 now) (t : Int) (bytes : Bytes) (ht : now ≤ t) :
+    SysRel Rel (Sys.step S₁ c s1 (.recv t bytes)) (Sys.step S₂ c s2 (.recv t bytes)) t := by
+  have h := h.mono sim ht
+  rw [Sys.step, Sys.step]
+  by_cases hex : ∃ rx, rxChain bytes = .ok (some rx)
+  · obtain ⟨rx, hrx⟩ := hex
+    rw [recv_match hrx, recv_match hrx]
+    dsimp only
+    have hg := getDuid_sim sim h.db rx.msg.chaddr (decodeOptions rx.msg.options).clientIdentifier
+    generalize getDuid S₁ s1.db t rx.msg.chaddr (decodeOptions rx.msg.options).clientIdentifier = g1 at hg ⊢
+    generalize getDuid S₂ s2.db t rx.msg.chaddr (decodeOptions rx.msg.options).clientIdentifier = g2 at hg ⊢
+    obtain ⟨d1, u1⟩ := g1
+    obtain ⟨d2, u2⟩ := g2
+    obtain ⟨hu, hd⟩ := hg
+    simp only at hu hd
+    subst hu
+    have htd : todo c d1 rx = todo c d2 rx := todo_congr hd.1 hd.2.1 rx
+    simp only [htd]
+    generalize todo c d2 rx = td
+    cases td with
+    | drop => exact ⟨hd, h.pend, h.sent, by show _ :: s1.calls = _ :: s2.calls; rw [h.calls]⟩
+    | discover =>
+      exact ⟨hd, by show s1.pend ++ _ = s2.pend ++ _; rw [h.pend], h.sent,
+        by show _ :: s1.calls = _ :: s2.calls; rw [h.calls]⟩
+    | request want =>
+      exact ⟨hd, by show s1.pend ++ _ = s2.pend ++ _; rw [h.pend], h.sent,
+        by show _ :: s1.calls = _ :: s2.calls; rw [h.calls]⟩
+  · rw [recv_match_other (fun rx hh => hex ⟨rx, hh⟩), recv_match_other (fun rx hh => hex ⟨rx, hh⟩)]
+    exact h
+
+theorem sim_find (sim : StoreSim S₁ S₂ Rel) (c : SrvCfg) {s1 : Sys σ₁} {s2 : Sys σ₂} {now : Int}
+    (h : SysRel Rel s1 s2 now) (i : Nat) (t : Int) (perm : List Nat) (orc : Nat → IPDB.Iter) (tEnd : Int) (ht : now ≤ t)
+    (hc : Ev.ClockOk (.find i t perm orc tEnd)) :
+    SysRel Rel (Sys.step S₁ c s1 (.find i t perm orc tEnd)) (Sys.step S₂ c s2 (.find i t perm orc tEnd)) tEnd := by
+  have h := h.mono sim ht
+  have hte : t ≤ tEnd := Int.le_trans hc.1 (hc.2.2 0)
+  rw [Sys.step, Sys.step]
+  by_cases hex : ∃ rx duid, s1.pend[i]? = some (.a1 rx duid)
+  · obtain ⟨rx, duid, hp1⟩ := hex
+    have hp2 : s2.pend[i]? = some (.a1 rx duid) := by rw [← h.pend]; exact hp1
+    rw [find_match hp1, find_match hp2]
+    dsimp only
+    have hf := findIP_sim sim h.db (decodeOptions rx.msg.options).requestedIP duid perm orc tEnd hc.1 hc.2.1 hc.2.2
+    generalize s1.db.findIP S₁ t (decodeOptions rx.msg.options).requestedIP duid perm orc = f1 at hf ⊢
+    generalize s2.db.findIP S₂ t (decodeOptions rx.msg.options).requestedIP duid perm orc = f2 at hf ⊢
+    obtain ⟨d1, r1⟩ := f1
+    obtain ⟨d2, r2⟩ := f2
+    obtain ⟨hr, hd⟩ := hf
+    simp only at hr hd
+    subst hr
+    cases r1 with
+    | error e =>
+      exact ⟨hd, by show s1.pend.set i _ = s2.pend.set i _; rw [h.pend], h.sent,
+        by show _ :: s1.calls = _ :: s2.calls; rw [h.calls]⟩
+    | ok a =>
+      exact ⟨hd, by show s1.pend.set i _ = s2.pend.set i _; rw [h.pend], h.sent,
+        by show _ :: s1.calls = _ :: s2.calls; rw [h.calls]⟩
+  · have hex2 : ∀ rx duid, s2.pend[i]? ≠ some (.a1 rx duid) := by
+      intro rx duid hh; rw [← h.pend] at hh; exact hex ⟨rx, duid, hh⟩
+    rw [find_match_other (fun rx duid hh => hex ⟨rx, duid, hh⟩), find_match_other hex2]
+    exact h.mono sim hte
+
+theorem sim_hold (sim : StoreSim S₁ S₂ Rel) (c : SrvCfg) {s1 : Sys σ₁} {s2 : Sys σ₂} {now : Int}
+    (h : SysRel Rel s1 s2 now) (i : Nat) (t : Int) (ht : now ≤ t) :
+    SysRel Rel (Sys.step S₁ c s1 (.hold i t)) (Sys.step S₂ c s2 (.hold i t)) t := by
+  have h := h.mono sim ht
+  rw [Sys.step, Sys.step]
+  by_cases hex : ∃ rx duid a, s1.pend[i]? = some (.a2 rx duid a)
+  · obtain ⟨rx, duid, a, hp1⟩ := hex
+    have hp2 : s2.pend[i]? = some (.a2 rx duid a) := by rw [← h.pend]; exact hp1
+    rw [hold_match hp1, hold_match hp2]
+    have hu := updateClient_sim sim h.db (some (Ip4.ofNat a)) duid offerHoldNs
+    generalize s1.db.updateClient S₁ t (some (Ip4.ofNat a)) duid offerHoldNs = u1 at hu ⊢
+    generalize s2.db.updateClient S₂ t (some (Ip4.ofNat a)) duid offerHoldNs = u2 at hu ⊢
+    obtain ⟨d1, r1⟩ := u1
+    obtain ⟨d2, r2⟩ := u2
+    obtain ⟨hr, hd⟩ := hu
+    simp only at hr hd
+    subst hr
+    cases r1 with
+    | error e =>
+      exact ⟨hd, by show s1.pend.set i _ = s2.pend.set i _; rw [h.pend], h.sent,
+        by show _ :: s1.calls = _ :: s2.calls; rw [h.calls]⟩
+    | ok v =>
+      exact ⟨hd, by show s1.pend.set i _ = s2.pend.set i _; rw [h.pend],
+        by show _ :: s1.sent = _ :: s2.sent; rw [h.sent],
+        by show _ :: s1.calls = _ :: s2.calls; rw [h.calls]⟩
+  · have hex2 : ∀ rx duid a, s2.pend[i]? ≠ some (.a2 rx duid a) := by
+      intro rx duid a hh; rw [← h.pend] at hh; exact hex ⟨rx, duid, a, hh⟩
+    rw [hold_match_other (fun rx duid a hh => hex ⟨rx, duid, a, hh⟩), hold_match_other hex2]
+    exact h
+
+theorem sim_lease (sim : StoreSim S₁ S₂ Rel) (c : SrvCfg) {s1 : Sys σ₁} {s2 : Sys σ₂} {now : Int}
+    (h : SysRel Rel s1 s2 now) (i : Nat) (t : Int) (ht : now ≤ t) :
+    SysRel Rel (Sys.step S₁ c s1 (.lease i t)) (Sys.step S₂ c s2 (.lease i t)) t := by
+  have h := h.mono sim ht
+  rw [Sys.step, Sys.step]
+  by_cases hex : ∃ rx duid a, s1.pend[i]? = some (.b2 rx duid a)
+  · obtain ⟨rx, duid, a, hp1⟩ := hex
+    have hp2 : s2.pend[i]? = some (.b2 rx duid a) := by rw [← h.pend]; exact hp1
+    rw [lease_match hp1, lease_match hp2]
+    have hu := updateClient_sim sim h.db (some (Ip4.ofNat a)) duid c.leaseNs
+    generalize s1.db.updateClient S₁ t (some (Ip4.ofNat a)) duid c.leaseNs = u1 at hu ⊢
+    generalize s2.db.updateClient S₂ t (some (Ip4.ofNat a)) duid c.leaseNs = u2 at hu ⊢
+    obtain ⟨d1, r1⟩ := u1
+    obtain ⟨d2, r2⟩ := u2
+    obtain ⟨hr, hd⟩ := hu
+    simp only at hr hd
+    subst hr
+    cases r1 with
+    | error e =>
+      exact ⟨hd, by show s1.pend.set i _ = s2.pend.set i _; rw [h.pend], h.sent,
+        by show _ :: s1.calls = _ :: s2.calls; rw [h.calls]⟩
+    | ok v =>
+      exact ⟨hd, by show s1.pend.set i _ = s2.pend.set i _; rw [h.pend],
+        by show _ :: s1.sent = _ :: s2.sent; rw [h.sent],
+        by show _ :: s1.calls = _ :: s2.calls; rw [h.calls]⟩
+  · have hex2 : ∀ rx duid a, s2.pend[i]? ≠ some (.b2 rx duid a) := by
+      intro rx duid a hh; rw [← h.pend] at hh; exact hex ⟨rx, duid, a, hh⟩
+    rw [lease_match_other (fun rx duid a hh => hex ⟨rx, duid, a, hh⟩), lease_match_other hex2]
+    exact h
+
+theorem sim_look (sim : StoreSim S₁ S₂ Rel) (c : SrvCfg) {s1 : Sys σ₁} {s2 : Sys σ₂} {now : Int}
+    (h : SysRel Rel s1 s2 now) (i : Nat) (t : Int) (probeFree : Bool) (ht : now ≤ t) :
+    SysRel Rel (Sys.step S₁ c s1 (.look i t probeFree)) (Sys.step S₂ c s2 (.look i t probeFree)) t := by
+  have h := h.mono sim ht
+  rw [Sys.step, Sys.step]
+  by_cases hex : ∃ rx duid want, s1.pend[i]? = some (.b1 rx duid want)
+  · obtain ⟨rx, duid, want, hp1⟩ := hex
+    have hp2 : s2.pend[i]? = some (.b1 rx duid want) := by rw [← h.pend]; exact hp1
+    rw [look_match hp1, look_match hp2]
+    have hl := lookupByDuid_sim sim h.db duid
+    generalize s1.db.lookupByDuid S₁ t duid = l1 at hl ⊢
+    generalize s2.db.lookupByDuid S₂ t duid = l2 at hl ⊢
+    obtain ⟨d1, r1⟩ := l1
+    obtain ⟨d2, r2⟩ := l2
+    obtain ⟨hr, hd⟩ := hl
+    simp only at hr hd
+    subst hr
+    have hnak : SysRel Rel
+        { db := d1, pend := s1.pend.set i .done, sent := ⟨t, .nak, 0, duid, rx, nakFrame c rx.msg⟩ :: s1.sent,
+          calls := (t, DbOp.lookupByDuid duid) :: s1.calls }
+        { db := d2, pend := s2.pend.set i .done, sent := ⟨t, .nak, 0, duid, rx, nakFrame c rx.msg⟩ :: s2.sent,
+          calls := (t, DbOp.lookupByDuid duid) :: s2.calls } t :=
+      ⟨hd, by show s1.pend.set i _ = s2.pend.set i _; rw [h.pend],
+        by show _ :: s1.sent = _ :: s2.sent; rw [h.sent],
+        by show _ :: s1.calls = _ :: s2.calls; rw [h.calls]⟩
+    cases r1 with
+    | error e => exact hnak
+    | ok lease =>
+      simp only
+      by_cases hw : want.toNat ≠ lease
+      · rw [if_pos hw, if_pos hw]; exact hnak
+      · rw [if_neg hw, if_neg hw]
+        by_cases hpf : ¬ probeFree = true
+        · rw [if_pos hpf, if_pos hpf]; exact hnak
+        · rw [if_neg hpf, if_neg hpf]
+          exact ⟨hd, by show s1.pend.set i _ = s2.pend.set i _; rw [h.pend], h.sent,
+            by show _ :: s1.calls = _ :: s2.calls; rw [h.calls]⟩
+  · have hex2 : ∀ rx duid want, s2.pend[i]? ≠ some (.b1 rx duid want) := by
+      intro rx duid want hh; rw [← h.pend] at hh; exact hex ⟨rx, duid, want, hh⟩
+    rw [look_match_other (fun rx duid want hh => hex ⟨rx, duid, want, hh⟩), look_match_other hex2]
+    exact h
+
+theorem sim_step (sim : StoreSim S₁ S₂ Rel) (c : SrvCfg) {s1 : Sys σ₁} {s2 : Sys σ₂} {now : Int}
+    (h : SysRel Rel s1 s2 now) (e : Ev) (ht : now ≤ e.t) (hc : e.ClockOk) :
+    SysRel Rel (Sys.step S₁ c s1 e) (Sys.step S₂ c s2 e) e.tEnd := by
+  cases e with
+  | recv t bytes => exact sim_recv sim c h t bytes ht
+  | find i t perm orc tEnd => exact sim_find sim c h i t perm orc tEnd ht hc
+  | hold i t => exact sim_hold sim c h i t ht
+  | look i t probeFree => exact sim_look sim c h i t probeFree ht
+  | lease i t => exact sim_lease sim c h i t ht
+
+theorem sim_run (sim : StoreSim S₁ S₂ Rel) (c : SrvCfg) (evs : List Ev) :
+    ∀ (s1 : Sys σ₁) (s2 : Sys σ₂) (now : Int), SysRel Rel s1 s2 now → EvMonotone evs → (∀ e ∈ evs.head?, now ≤ e.t) →
+      SysRel Rel (Sys.run S₁ c s1 evs) (Sys.run S₂ c s2 evs) (endClock now evs) := by
+  induction evs with
+  | nil => intro s1 s2 now h _ _; exact h
+  | cons e rest ih =>
+    intro s1 s2 now h hm h0
+    obtain ⟨hc, hh, hm'⟩ := evmono_tail hm
+    rw [endClock_cons]
+    exact ih _ _ _ (sim_step sim c h e (h0 e (by simp)) hc) hm' hh
+
+end RefineSys
+
+theorem system_refines_table (c : SrvCfg) (b : Boot) (evs : List Ev) (hm : EvMonotone evs)
+    (h0 : ∀ e ∈ evs.head?, b.t0 ≤ e.t) :
+    (serverInit clientsStore Clients.empty c b.base b.p b.dyn b.staticOnly b.t0).isSome =
+      (serverInit tableStore ([] : Table) c b.base b.p b.dyn b.staticOnly b.t0).isSome ∧
+    ∀ dbc dbt, serverInit clientsStore Clients.empty c b.base b.p b.dyn b.staticOnly b.t0 = some dbc →
+      serverInit tableStore ([] : Table) c b.base b.p b.dyn b.staticOnly b.t0 = some dbt →
+      ((Sys.run clientsStore c { db := dbc } evs).sent.map fun s => (s.t, s.kind, s.addr, s.duid, s.frame)) =
+      ((Sys.run tableStore c { db := dbt } evs).sent.map fun s => (s.t, s.kind, s.addr, s.duid, s.frame)) := by
+  have hinit := serverInit_sim clients_table_sim (Ipdb.R.empty b.t0) c b.base b.p b.dyn b.staticOnly
+  refine ⟨hinit.isSome_eq, ?_⟩
+  intro dbc dbt h1 h2
+  rw [h1, h2] at hinit
+  have hdb : DbRel Ipdb.R dbc dbt b.t0 := hinit
+  have hrun := sim_run clients_table_sim c evs { db := dbc } { db := dbt } b.t0 ⟨hdb, rfl, rfl, rfl⟩ hm h0
+  rw [hrun.sent]
+
 end PsaDhcp.Proofs.Safety
